@@ -20,15 +20,28 @@ EXPLANATION = (
     "R1 cursor discipline: interprocedural cursor-window abstract interpretation over every Parser method (accessor predicates such as "
     "eof() are inlined, peek()/get()/advance() get the meet of their call sites as pre-condition and a relative post-condition, counted "
     "advance loops are summarised, positions validated by compare()/find()/explicit tests license the catch-up loops) plus one window "
-    "per local index over _input/entity slices: every read is inside its buffer, the cursor never passes the end, every slice handed "
+    "per local index over _input/entity slices: every read is inside its buffer, the cursor never passes the end (a helper that advances up to a "
+    "position parameter is analysed under `position <= size`, which every call site must establish: find() hit + match length, compare/substr "
+    "equality, size test), every slice handed "
     "out in a token starts at a snapshot of the cursor, and error/Eof offsets are the cursor. R2 tag balance: the element stack is "
     "pushed only for a non-empty start tag, popped only behind the `stack non-empty` and `name equals top` tests, Eof is emitted only "
     "with an empty stack, errors are sticky. R3 every configured limit is tested on every path that grows the bounded quantity. "
     "R4 entity decoding recognises exactly the five predefined names and numeric references, everything else is an error, and nothing "
-    "in xml.hpp opens files or sockets. R5 numeric references: accumulators are range-tested inside the loop before they can wrap, the "
-    "digit-value expressions and the UTF-8 encoder are evaluated exactly over their guard-delimited domains against the definitions "
-    "(all of U+0…U+10FFFF, surrogates and larger values rejected). R6 SAX and DOM consume only Parser::next()/current() and their "
+    "in xml.hpp opens files or sockets (the table is read through a pure look-up helper if there is one). R5 numeric references: every byte "
+    "between `&#`/`&#x` and `;` is consumed as a digit — digit loops start right behind the prefix in the radix it selects and each iteration "
+    "either updates the accumulator with a digit value that is exact on its guard-delimited byte range or fails; a std::from_chars decode is "
+    "accepted only behind tests of the error code AND of ptr == end of the body; accumulators are range-tested inside the loop before they "
+    "can wrap; the UTF-8 encoder is evaluated exactly (all of U+0…U+10FFFF, surrogates and larger values rejected) and its verdict is "
+    "propagated. Locals are found by dataflow (the code point is what encodeUtf8 receives, the body is the first parameter), never by name. R6 SAX and DOM consume only Parser::next()/current() and their "
     "switches cover every TokenKind.")
+# exempt from the function-inventory guard (report.py): these rules hold for, or look into, functions they have never seen; where a clause of theirs
+# cannot follow a shape it refuses by itself (AnalysisBroken) instead of reporting
+FOLLOWS_HELPERS = {"C14-R1": "the cursor-window analysis is interprocedural over EVERY Parser method (summaries, entry requirements and limit-parameter obligations are computed for "
+                             "new helpers like for old ones); slice, token-view and offset clauses are universal per method / follow field-filling helpers",
+                   "C14-R4": "the entity table is read through a pure look-up helper, readDoctype's callee set is closed over family helpers, the I/O deny list covers every function of "
+                             "xml.hpp; the dispatch clauses refuse when the '#' test or the branch on appendCharRef's result is not where they look",
+                   "C14-R6": "callback invocations are resolved through local lambdas / helpers that receive the callback, DOM attachments and entity decoding are followed into the "
+                             "builder's helpers; handing the parser, the callbacks object or the node stack to another function is a refusal"}
 NOT_DECIDED = ["that the slices are the *right* slices (content faithfulness beyond bounds, snapshots and table checks)", "UTF-8 validity of the input", "line/column accounting",
                "namespace processing", "agreement with expat"]
 
@@ -163,11 +176,22 @@ def counted_loops(f, unit):
     return out
 
 
-class ValidBounds:
-    """forward analysis: set of linear forms over locals known to be <= _input.size()"""
+def valid_in(fm, st):
+    """the position `fm` is known <= _input.size(): some established form has the same symbols and at least its constant"""
+    return fm is not None and any(g[1] == fm[1] and g[0] >= fm[0] for g in (st or ()))
 
-    def __init__(self, f):
+
+class ValidBounds:
+    """forward analysis: set of linear forms over locals (and the cursor) known to be <= _input.size().
+
+    Sources: `P < size` / `P <= size`; `_input.compare(P, s.size(), s) == 0`; `_input.substr(P, s.size()) == s` (substr clamps at the end of the
+    input, so equality with s means all s.size() bytes were there); `p = _input.find(x[, from])` with `p != npos` (p + length of x); and the
+    function's *limit parameters* (positions every call site was shown to establish, see cursor_program).  A form over the cursor dies when the
+    cursor moves, a form over a local when the local is written."""
+
+    def __init__(self, f, movers=(), assumed=()):
         self.f = f
+        self.movers = set(id(m) for m in movers)
         self.find_len = {}
         for e in f.stmts():
             if e.node.get("k") == "decl":
@@ -175,9 +199,13 @@ class ValidBounds:
                     i = strip_casts(strip_wrappers(v.get("init") or {}))
                     if i.get("k") == "mcall" and is_input(i.get("obj")) and last(i.get("callee", "")) == "find" and i.get("args"):
                         lit = [x for x in walk(i["args"][0]) if x.get("k") in ("str", "char")]
+                        what = strip_views(i["args"][0])
                         if len(lit) == 1:
-                            self.find_len[v["n"]] = len(lit[0]["v"].encode()) if lit[0]["k"] == "str" else 1
-        self.flow = Forward(f, frozenset(), self._transfer, lambda a, b: a & b, edge=self._edge, eh=False)
+                            self.find_len[v["n"]] = form(len(lit[0]["v"].encode()) if lit[0]["k"] == "str" else 1, (v["n"],))
+                        elif what is not None and what.get("k") == "var" and "string_view" in (what.get("t") or "") and not local_writes(f, what["n"]):
+                            # find(<string_view local/parameter>): the match is what.size() bytes long
+                            self.find_len[v["n"]] = form(0, (v["n"], what["n"] + ".size()"))
+        self.flow = Forward(f, frozenset(form(0, (p,)) for p in assumed), self._transfer, lambda a, b: a & b, edge=self._edge, eh=False)
         self.at_cond = {}
         for b in f.blocks.values():
             if b.cond is not None:
@@ -192,15 +220,17 @@ class ValidBounds:
             return st
         n = e.node
         killed = None
+        if id(e) in self.movers:
+            st = frozenset(x for x in st if CUR not in x[1])
         if n.get("k") == "un" and ("++" in n.get("op", "") or "--" in n.get("op", "")) and strip_casts(n["v"]).get("k") == "var":
             killed = strip_casts(n["v"])["n"]
         elif n.get("k") in ("bin", "opcall") and is_assign(n) and strip_casts(_ap(n)[0]).get("k") == "var":
             killed = strip_casts(_ap(n)[0])["n"]
         elif n.get("k") == "decl":
             for v in n["vars"]:
-                st = frozenset(x for x in st if v["n"] not in x[1])
+                st = frozenset(x for x in st if v["n"] not in x[1] and not any(s.startswith(v["n"] + ".") for s in x[1]))
         if killed:
-            st = frozenset(x for x in st if killed not in x[1])
+            st = frozenset(x for x in st if killed not in x[1] and not any(s.startswith(killed + ".") for s in x[1]))
         return st
 
     def _edge(self, st, b, si):
@@ -229,9 +259,53 @@ class ValidBounds:
                         sname = strip_casts(strip_wrappers(sname["args"][0]))
                     if fp is not None and ssz == show(sname) + ".size()":
                         add.add(form(fp[0], list(fp[1]) + [ssz]))
+                # `_input.substr(P, s.size()) == s`: the slice is min(s.size(), size - P) bytes long, so equality means P + s.size() <= size
+                lv, rv = strip_views(l), strip_views(r)
+                if op == "==" and lv is not None and rv is not None and lv.get("k") == "mcall" and is_input(lv.get("obj")) and last(lv.get("callee", "")) == "substr" and rv.get("k") == "var":
+                    sa = [a for a in lv.get("args", []) if not a.get("def")]
+                    if len(sa) == 2:
+                        fp, ssz = lin(sa[0]), show(strip_casts(strip_wrappers(sa[1])))
+                        if fp is not None and ssz in (rv["n"] + ".size()", rv["n"] + ".length()") and not local_writes(self.f, rv["n"]):
+                            add.add(form(fp[0], list(fp[1]) + [rv["n"] + ".size()"]))
                 if op == "!=" and ls.get("k") == "var" and ls["n"] in self.find_len and "npos" in show(rs):
-                    add.add(form(self.find_len[ls["n"]], (ls["n"],)))
+                    add.add(self.find_len[ls["n"]])
         return st | frozenset(add) if add else st
+
+
+def limit_params(funcs, names):
+    """{function: {parameter name: index}} of *limit parameters*: an unmodified integer parameter that bounds a cursor advance — it occurs in a
+    comparison with the member cursor (`_cur < p`), or is handed on unchanged as a limit argument of another family function.  Inside the function
+    it is assumed to be a position <= _input.size(); every call site has to establish that (obligation `limit argument`, r1)."""
+    out = {f: {} for f in funcs}
+    by = {}
+    for f in funcs:
+        by.setdefault(f.name, []).append(f)
+    changed = True
+    while changed:
+        changed = False
+        for f in funcs:
+            if f.access != "private":
+                continue            # a public method can be called with anything: nothing is assumed about its parameters
+            for j, p in enumerate(f.params):
+                if p["n"] in out[f] or "long" not in p["t"] or "&" in p["t"] or "*" in p["t"] or local_writes(f, p["n"]):
+                    continue
+                hit = False
+                for b in f.blocks.values():
+                    for q in (common.cmp_both(strip_casts(b.cond)) if b.cond is not None else []):
+                        fm = lin(q[2])
+                        if q[0] in ("<", "<=") and is_cur(q[1]) and fm is not None and p["n"] in fm[1]:
+                            hit = True
+                for e in f.stmts():
+                    n = e.node
+                    if n.get("k") == "mcall" and n.get("callee") in by:
+                        for g in by[n["callee"]]:
+                            for pn, k in out[g].items():
+                                if k < len(n["args"]) and strip_casts(n["args"][k]).get("k") == "var" and strip_casts(n["args"][k])["n"] == p["n"]:
+                                    hit = True
+                if hit:
+                    out[f][p["n"]] = j
+                    changed = True
+    return out
 
 
 def cursor_program(ctx):
@@ -243,8 +317,9 @@ def cursor_program(ctx):
     snaps = {f: snapshots(f) for f in funcs}
     loops = {f: counted_loops(f, unit) for f in funcs}
     loop_calls = {f: {c for (_, c) in loops[f].values()} for f in funcs}
-    bounds = {f: ValidBounds(f) for f in funcs}
     movers = {f: cursor_moves(f, names) for f in funcs}
+    limits = limit_params(funcs, names)
+    bounds = {f: ValidBounds(f, movers[f], sorted(limits[f])) for f in funcs}
 
     def alias_ok(f, name, use_elem):
         """snapshot `name` still equals the cursor at use_elem: no cursor move on a path from its declaration to the use"""
@@ -341,9 +416,9 @@ def cursor_program(ctx):
                 op = cp[0] if t else {"<": ">=", ">=": "<", ">": "<=", "<=": ">", "==": "!=", "!=": "=="}[cp[0]]
                 fm = lin(cp[2])
                 valid = bounds[f].at_cond.get(x.get("id"), frozenset())
-                if fm is not None and op == "<" and fm in valid:
+                if fm is not None and op == "<" and valid_in(fm, valid):
                     return [("atleast", form(1))]
-                if fm is not None and op == "<=" and form(fm[0] + 1, fm[1]) in valid:
+                if fm is not None and op == "<=" and valid_in(form(fm[0] + 1, fm[1]), valid):
                     return [("atleast", form(1))]
             return None
         return guard_ops(c, truth, CUR, SIZE_SYMS, extra, canon_for(f, use))
@@ -354,6 +429,7 @@ def cursor_program(ctx):
     for g in funcs:
         if g.name in unit and prog.rel_any[g] != -1 and not prog.violations:
             raise AnalysisBroken("%s is used as a unit-advance accessor but its relative summary is %s" % (last(g.name), prog.rel_any[g]))
+    prog.limits, prog.bounds = limits, bounds
     return prog, funcs, snaps, loops, unit
 
 
@@ -438,8 +514,10 @@ def r1(ctx, r):
     fb = ctx.fb()
     prog, funcs, snaps, loops, unit = cursor_program(ctx)
     nreq = len(prog.checked) + len(prog.violations)
-    if nreq < 40:
-        raise AnalysisBroken("only %d cursor reads/advances recognised in xml::Parser (floor 40)" % nreq)
+    # floors: 41 requirements / 34 accessor call sites on the pinned tree.  Folding duplicated scan loops into a helper or a library call (find,
+    # substr compare) legitimately removes sites, so the floors only guard against the tokenizer no longer going through the accessors at all.
+    if nreq < 24:
+        raise AnalysisBroken("only %d cursor reads/advances recognised in xml::Parser (floor 24)" % nreq)
     r.instance(nreq)
     for (f, e, what) in prog.checked:
         r.ok("%s: %s inside the input" % (last(f.name), what))
@@ -448,8 +526,27 @@ def r1(ctx, r):
                "the parser reads or moves past the end of the input (undefined behaviour on a string_view, slices and offsets outside the input)"
                % (last(f.name), what, show_form(need) if not is_top(need) else "a bound the analysis cannot establish", show_form(have), prog.describe_site(f)))
     nsites = len([1 for (f, e, what) in prog.checked + [(v[0], v[1], v[4]) for v in prog.violations] if "[needs" in what])
-    if nsites < 34:
-        raise AnalysisBroken("only %d peek/get/advance call-site obligations (floor 34)" % nsites)
+    if nsites < 20:
+        raise AnalysisBroken("only %d peek/get/advance call-site obligations (floor 20)" % nsites)
+    # limit arguments: a helper that advances the cursor up to a parameter (`while (_cur < target) advance();`) is analysed under the assumption
+    # target <= size; every call site must have established that for the argument it passes (find() hit + match length, compare/substr equality,
+    # an explicit `< size` test)
+    lim_names = {g.name for g in funcs if prog.limits.get(g)}
+    for f in fb.in_file(XF):
+        if f.ok and f not in funcs and any(e.node.get("k") in ("call", "mcall") and e.node.get("callee") in lim_names for e in f.stmts()):
+            raise AnalysisBroken("%s calls %s from outside the analysed Parser methods: the limit-parameter assumption cannot be checked at that call site" % (short(f.name), sorted(last(x) for x in lim_names)))
+    for f in funcs:
+        for e in f.stmts():
+            g = prog.callee(e.node) if e.node.get("k") == "mcall" else None
+            if g is None or not prog.limits.get(g):
+                continue
+            st = prog.bounds[f].flow.before(e)
+            for pn, k in sorted(prog.limits[g].items()):
+                a = e.node["args"][k]
+                r.instance()
+                r.expect(st is None or valid_in(lin(a), st), f, e, "limit argument: %s(%s)" % (last(g.name), show(a)[:30]), "%s calls %s(%s), which advances the cursor up to that position, on a path where `%s <= _input.size()` was not "
+                         "established (no find() hit, compare/substr equality or size test covers it): the cursor can pass the end of the input" % (last(f.name), last(g.name), show(a), show(a)),
+                         okdesc="%s: %s(%s) with the position validated" % (last(f.name), last(g.name), show(a)[:30]))
     # local index windows over _input and entity slices
     nloc = 0
     for f in funcs:
@@ -469,8 +566,10 @@ def r1(ctx, r):
             r.instance()
             r.expect(const_index_ok(f, e, buf, k), f, e, "outside buffer: %s[%d]" % (buf, k), "%s reads `%s[%d]` without a dominating size test" % (last(f.name), buf, k),
                      okdesc="%s: %s[%d] behind a size test" % (last(f.name), buf, k))
-    if nloc < 8:
-        raise AnalysisBroken("only %d local-index reads recognised (floor 8)" % nloc)
+    # floor: 8 sites on the pinned tree; replacing a hand-written scan by a library call (find / substr compare / from_chars) legitimately
+    # removes reads, so the floor only guards against the rule no longer seeing subscripts at all
+    if nloc < 4:
+        raise AnalysisBroken("only %d local-index reads recognised (floor 4)" % nloc)
     # slices start at cursor snapshots
     nsl = 0
     ru = xp(ctx, "readUntil")
@@ -503,7 +602,7 @@ def r1(ctx, r):
             if not ap:
                 continue
             lt = show(strip_casts(ap[0]))
-            if lt not in ("_token.text", "_token.name", "tok.name", "tok.text"):
+            if field_of(strip_casts(ap[0])) not in ("iora::parsers::xml::Token::text", "iora::parsers::xml::Token::name"):      # any Token object: the member _token or a local being filled
                 continue
             rhs = strip_casts(strip_wrappers(ap[1]))
             r.instance()
@@ -521,13 +620,53 @@ def r1(ctx, r):
     okc = any(assign_parts(e.node) and is_cur(assign_parts(e.node)[0]) and const_value(strip_casts(assign_parts(e.node)[1])) == 0 for c in ctor for e in c.stmts())
     dflt = common.field_default(fb, "xml::Parser", "_cur")
     r.expect(okc or dflt == 0, ctor[0] if ctor else XP, None, "cursor start", "the Parser constructor does not start _cur at 0", okdesc="Parser(): _cur = 0")
+    by_name = {}
+    for f in funcs:
+        by_name.setdefault(f.name, []).append(f)
     for fn, lhs in (("fail", "_error.offset"), ("emitEof", "_token.offset")):
         g = xp(ctx, fn)
-        ws = [e for e in g.stmts() if assign_parts(e.node) and show(strip_casts(assign_parts(e.node)[0])) == lhs]
+        ws = assignments_to(g, lhs, by_name, skip=token_producers(funcs))
         r.instance()
-        r.expect(len(ws) == 1 and is_cur(assign_parts(ws[0].node)[1]), g, ws[0] if ws else None, "offset source: %s" % lhs, "%s does not report the cursor as offset" % fn, okdesc="%s: %s = _cur" % (fn, lhs))
+        r.expect(len(ws) == 1 and is_cur(ws[0][1]), g, ws[0][0] if ws else None, "offset source: %s" % lhs, "%s does not report the cursor as offset" % fn, okdesc="%s: %s = _cur" % (fn, lhs))
     r.note("unit-advance accessors: %s; counted advance loops: %d; summaries: %s" % (", ".join(sorted(last(u) for u in unit)), sum(len(v) for v in loops.values()),
            "; ".join("%s pre>=%s" % (last(f.name), show_form(prog.pre[f])) for f in funcs if last(f.name) in ("peek", "get", "advance", "readEndTag", "readStartOrEmptyTag", "readAttributes"))))
+
+
+def token_producers(funcs):
+    """names of the family functions that (transitively) call produced(): readers and dispatchers, as opposed to helpers that merely fill fields"""
+    names = {g.name for g in funcs}
+    out = {XP + "::produced"}
+    changed = True
+    while changed:
+        changed = False
+        for g in funcs:
+            if g.name not in out and any(e.node.get("k") == "mcall" and e.node.get("callee") in out for e in g.stmts()):
+                out.add(g.name)
+                changed = True
+    return out
+
+
+def assignments_to(f, lhs, by_name, depth=0, skip=()):
+    """[(element of f, value expression in f's terms)] for every assignment to the member path `lhs` (as shown, e.g. "_token.offset", or a predicate on
+    that text) that f performs itself or through a family helper — not one of `skip` (token producers: what they store is their own token, not f's) —
+    that stores one of its parameters there: the value is then the argument at f's call site (a value without locals is taken as it is, anything else
+    is None)"""
+    out = []
+    for e in f.stmts():
+        ap = assign_parts(e.node)
+        if ap and (lhs(show(strip_casts(ap[0]))) if callable(lhs) else show(strip_casts(ap[0])) == lhs):
+            out.append((e, ap[1]))
+        elif e.node.get("k") == "mcall" and e.node.get("callee") in by_name and e.node["callee"] not in skip and depth < 2 and strip_casts(e.node.get("obj") or {"k": "this"}).get("k") == "this":
+            for g in by_name[e.node["callee"]]:
+                if g is f or len(g.params) != len(e.node["args"]):
+                    continue
+                for (_, v) in assignments_to(g, lhs, by_name, depth + 1, skip):
+                    v = strip_casts(v) if v is not None else None
+                    if v is not None and v.get("k") == "var" and v.get("parm") is not None and not local_writes(g, v["n"]):
+                        out.append((e, e.node["args"][v["parm"]]))
+                    else:
+                        out.append((e, v if v is not None and not any(x.get("k") == "var" for x in walk(v)) else None))
+    return out
 
 
 def leq1(fm):
@@ -623,9 +762,10 @@ def r2(ctx, r):
     # start tag: push exactly on the non-empty path
     pushes = stack_ops(start, ("push_back", "emplace_back"))
     prods = [e for e in start.stmts() if e.node.get("k") == "mcall" and last(e.node.get("callee", "")) == "produced"]
-    eb = [b for b in start.blocks.values() if b.cond is not None and strip_casts(b.cond).get("k") == "var" and strip_casts(b.cond)["n"] == "empty"]
+    flag = branched_bool(start)      # the self-closing flag: the one bool local of the function that is branched on (found by dataflow, not by its name)
+    eb = [b for b in start.blocks.values() if b._raw_cond() is not None and is_var(b._raw_cond(), flag["d"])]
     r.instance()
-    if r.expect(len(pushes) == 1 and len(prods) == 2 and len(eb) >= 1, start, None, "start tag shape", "readStartOrEmptyTag: expected one push, two produced() and a test of `empty`; found %d/%d/%d" % (len(pushes), len(prods), len(eb)),
+    if r.expect(len(pushes) == 1 and len(prods) == 2 and len(eb) >= 1, start, None, "start tag shape", "readStartOrEmptyTag: expected one push, two produced() and a test of `%s`; found %d/%d/%d" % (flag["n"], len(pushes), len(prods), len(eb)),
                 okdesc="readStartOrEmptyTag: one push, two produced"):
         push = pushes[0]
         ebb = eb[-1] if len(eb) == 1 else [b for b in eb if dominated_by_edge(start, push, b, 1, eh=False)][0] if [b for b in eb if dominated_by_edge(start, push, b, 1, eh=False)] else eb[0]
@@ -645,8 +785,8 @@ def r2(ctx, r):
             ok = (on_empty and search(start, ("entry",), lambda x: x is p, stop=None, eh=False) is not None and not elem_dominates(start, push, p, eh=False)) or (on_nonempty and elem_dominates(start, push, p, eh=False))
             r.expect(ok, start, p, "start tag produced without push", "readStartOrEmptyTag reports a StartElement on a path that did not push it (or an EmptyElement after pushing)", okdesc="produced() consistent with push")
         # the empty flag is true only when '/' was seen
-        sets = [e for e in start.stmts() if (assign_parts(e.node) and strip_casts(assign_parts(e.node)[0]).get("n") == "empty")]
-        decl = [v for e in start.stmts() if e.node.get("k") == "decl" for v in e.node["vars"] if v["n"] == "empty"]
+        sets = [e for e in start.stmts() if (assign_parts(e.node) and is_var(assign_parts(e.node)[0], flag["d"]))]
+        decl = [flag]
         r.instance()
         slash_blocks = [b for b in start.blocks.values() if b.cond is not None and common.cmp_parts(b.cond) and common.cmp_parts(b.cond)[0] == "==" and const_value(common.cmp_parts(b.cond)[2]) == ord('/') and "peek()" in show(common.cmp_parts(b.cond)[1])]
         ok = False
@@ -656,7 +796,7 @@ def r2(ctx, r):
             i = strip_casts(decl[0]["init"])
             cpi = common.cmp_parts(i)
             ok = bool(cpi) and cpi[0] == "==" and const_value(cpi[2]) == ord('/') and "peek()" in show(cpi[1])
-        r.expect(ok, start, None, "empty flag", "`empty` is not exactly 'the character after the attributes is /'", okdesc="empty ⇔ '/' seen")
+        r.expect(ok, start, None, "empty flag", "`%s` is not exactly 'the character after the attributes is /'" % flag["n"], okdesc="%s ⇔ '/' seen" % flag["n"])
     # depth paired with the stack: on every path to produced() the net change of _depth is +1 exactly when the element was pushed
     # (start tag) and -1 exactly with the pop (end tag); nothing else writes _depth
     dw = [(f, e) for f in funcs for e in f.stmts() if (e.node.get("k") == "un" and field_of(strip_casts(e.node["v"])) == DEPTH and ("++" in e.node["op"] or "--" in e.node["op"])) or
@@ -754,7 +894,7 @@ def r3(ctx, r):
     r.instance()
     r.expect(len(qb) == 1 and qrt and all(dominated_by_edge(qv, e, qb[0], 1, eh=False) for e in qrt), qv, None, "attribute value limit", "readQuotedValue succeeds without the maxTextSpan test", okdesc="attribute value length tested")
     # attributes per element
-    pushes = [e for e in attrs.stmts() if e.node.get("k") == "mcall" and last(e.node.get("callee", "")) in ("push_back", "emplace_back") and strip_casts(e.node.get("obj") or {}).get("n") == "attrs"]
+    pushes = [e for e in attrs.stmts() if e.node.get("k") == "mcall" and last(e.node.get("callee", "")) in ("push_back", "emplace_back") and is_var(e.node.get("obj"), attr_param(attrs).get("d"))]
     ab = [b for b in attrs.blocks.values() if b.cond is not None and common.cmp_parts(b.cond) and "maxAttrsPerElement" in show(b.cond)]
     r.instance()
     ok = len(pushes) == 1 and len(ab) == 1 and search(attrs, pushes[0], lambda x: x is pushes[0], stop=lambda x: x.block is ab[0], eh=False) is None
@@ -764,9 +904,31 @@ def r3(ctx, r):
     r.expect(ok, attrs, pushes[0] if pushes else None, "attribute count limit", "readAttributes can add another attribute or succeed after a push without passing the maxAttrsPerElement test", okdesc="maxAttrsPerElement tested after every push")
     # token budget
     tb = [b for b in nxt.blocks.values() if b.cond is not None and "maxTotalTokens" in show(b.cond) and "_producedTokens" in show(b.cond)]
-    reads = [e for e in nxt.stmts() if e.node.get("k") == "mcall" and last(e.node.get("callee", "")).startswith("read")]
+    # the tokenizing calls of next(): calls of family methods that (transitively) reach produced() — the readers themselves or a dispatcher in front of
+    # them.  Behind the budget test in next(), everything they call is behind it too.  Floor: the 7 functions that call produced() directly must all
+    # be reachable this way (a reader reached on another route would escape the budget).
+    fam = {}
+    for g in methods(ctx):
+        fam.setdefault(g.name, []).append(g)
+    direct = {g.name for gs in fam.values() for g in gs if g is not prod and any(e.node.get("k") == "mcall" and e.node.get("callee") == prod.name for e in g.stmts())}
+
+    def producers(name, seen):
+        """names of the functions calling produced() directly that are reachable from family function `name`"""
+        if name in seen or name not in fam:
+            return set()
+        seen.add(name)
+        out = {name} if name in direct else set()
+        for g in fam[name]:
+            for e in g.stmts():
+                if e.node.get("k") == "mcall" and e.node.get("callee") in fam and e.node["callee"] != nxt.name:
+                    out |= producers(e.node["callee"], seen)
+        return out
+    reads = [e for e in nxt.stmts() if e.node.get("k") == "mcall" and e.node.get("callee") in fam and e.node["callee"] != nxt.name and producers(e.node["callee"], set())]
+    reached = set().union(*[producers(e.node["callee"], set()) for e in reads]) if reads else set()
+    if direct - reached:
+        raise AnalysisBroken("next(): %s produce tokens but are not reached from next()'s own calls — the token budget rule does not see their call sites" % sorted(last(x) for x in direct - reached))
     r.instance()
-    ok = bool(tb) and len(reads) >= 7
+    ok = bool(tb) and len(reached) >= 7
     if ok:
         # the materialised `a && b` condition: the true edge returns fail, every reader is on the other side
         last_b = tb[-1]
@@ -798,10 +960,69 @@ ENTITIES = {"lt": ord('<'), "gt": ord('>'), "amp": ord('&'), "apos": ord("'"), "
 IO_DENY = ("fopen", "open", "openat", "socket", "connect", "getaddrinfo", "popen", "system", "dlopen", "mmap", "std::filesystem::", "std::basic_ifstream", "std::basic_fstream", "std::basic_ofstream", "curl_")
 
 
+def lookup_helper_table(g, j):
+    """For a pure look-up helper `g` that compares its j-th parameter with string literals and returns a constant per literal:
+    ({literal: constant returned}, {constants returned when no literal matched}).  AnalysisBroken if g does anything else."""
+    pd = g.params[j].get("d")
+    tab, matched = {}, set()
+    for e in g.stmts():
+        n = e.node
+        if n.get("k") in ("call", "mcall", "new", "delete", "throw") or (n.get("k") in ("bin", "opcall", "un") and (is_assign(n) or "++" in n.get("op", "") or "--" in n.get("op", ""))) or \
+                (n.get("k") == "ctor" and n.get("cls") not in ("std::basic_string_view",)):
+            raise AnalysisBroken("%s: `%s` — not a pure literal look-up, the rule does not follow it" % (last(g.name), show(n)[:60]))
+    for b in g.blocks.values():
+        cp = common.cmp_parts(strip_casts(b.cond)) if b.cond is not None and len(b.succs) == 2 and b.edge_label(0) is True else None
+        if not cp:
+            continue
+        sides = [(cp[1], cp[2]), (cp[2], cp[1])]
+        hit = [(x, y) for x, y in sides if is_var(strip_views(x), pd) and len([z for z in walk(y) if z.get("k") == "str"]) == 1]
+        if cp[0] != "==" or not hit:
+            raise AnalysisBroken("%s: branch `%s` is not `<parameter> == \"literal\"`" % (last(g.name), show(b.cond)[:60]))
+        lit = [z for z in walk(hit[0][1]) if z.get("k") == "str"][0].get("v")
+        rets = [e for e in g.blocks[b.succs[0]].elems if e.kind == "stmt" and e.node.get("k") == "ret"]
+        if len(rets) != 1 or const_value(rets[0].node.get("v") or {}) is None or lit in tab:
+            raise AnalysisBroken("%s: the arm of \"%s\" does not return one constant" % (last(g.name), lit))
+        tab[lit] = const_value(rets[0].node["v"])
+        matched.add(rets[0])
+    fallback = set()
+    for e in common.returns(g):
+        if e not in matched:
+            cv = const_value(e.node.get("v") or {})
+            if cv is None:
+                raise AnalysisBroken("%s: a return that is no constant" % last(g.name))
+            fallback.add(cv)
+    return tab, fallback
+
+
+def branch_on_result(f, call):
+    """(block, successor when the call returned true, successor when false) of the branch that tests the result of the call element
+    `call` — the call itself as condition, or an unmodified local initialised with it; None if there is none"""
+    held = [v["d"] for x in f.stmts() if x.node.get("k") == "decl" for v in x.node["vars"] if v.get("init") is not None and strip_casts(v["init"]) is call.node and not writes_of(f, v["d"])]
+    for b in f.blocks.values():
+        if b.cond is None or len(b.succs) != 2:
+            continue
+        c, st, sf = common.branch(b)
+        if c is not None and (c is call.node or (c.get("k") == "var" and c.get("d") in held)) and st is not None and sf is not None and st != sf:
+            return b, st, sf
+    return None
+
+
 def r4(ctx, r):
     fb = ctx.fb()
     de = xp(ctx, "decodeEntities")
+    acrf = xp(ctx, "appendCharRef")
+    # the entity slice and the output are found by dataflow: the slice is what decodeEntities hands to appendCharRef, the output is its std::string & parameter
+    acr = [e for e in de.stmts() if e.node.get("k") in ("call", "mcall") and e.node.get("callee") == acrf.name]
+    outp = [p for p in de.params if "basic_string<" in p["t"] and "&" in p["t"] and "const" not in p["t"]]
+    if len(acr) != 1 or len(outp) != 1 or not acr[0].node.get("args") or (strip_views(acr[0].node["args"][0]) or {}).get("k") != "var":
+        raise AnalysisBroken("decodeEntities: expected one call appendCharRef(<entity slice>, out) and one std::string & parameter")
+    ent = strip_views(acr[0].node["args"][0])
+    ed, od = ent["d"], outp[0].get("d")
+
+    def pushed_on_out(block):
+        return [e.node["args"][0] for e in block.elems if e.kind == "stmt" and e.node.get("k") == "mcall" and last(e.node.get("callee", "")) == "push_back" and e.node.get("args") and is_var(e.node.get("obj"), od)]
     table = {}
+    # (a) inline chain: `ent == "lit"` whose true edge pushes one constant
     for b in de.blocks.values():
         c = b.cond
         if c is None:
@@ -809,12 +1030,40 @@ def r4(ctx, r):
         cp = common.cmp_parts(c)
         if not cp or cp[0] != "==":
             continue
-        lit = [x.get("v") for x in walk(cp[2]) if x.get("k") == "str"]
-        if len(lit) != 1 or strip_views(cp[1]).get("n") != "ent":
+        for x, y in ((cp[1], cp[2]), (cp[2], cp[1])):
+            lit = [z.get("v") for z in walk(y) if z.get("k") == "str"]
+            if len(lit) == 1 and is_var(strip_views(x), ed):
+                pushed = [const_value(strip_casts(a)) for a in pushed_on_out(de.blocks[b.succs[0]])]
+                table[lit[0]] = pushed[0] if len(pushed) == 1 else None
+    # (b) look-up helper: `r = g(ent)` with g a pure literal→constant table; `r != <no-match constant>` guards `out.push_back(r)`
+    for e in de.stmts():
+        n = e.node
+        if n.get("k") not in ("call", "mcall") or e is acr[0] or not (n.get("callee") or "").startswith(XP + "::"):
             continue
-        tb = de.blocks[b.succs[0]]
-        pushed = [const_value(strip_casts(e.node["args"][0])) for e in tb.elems if e.kind == "stmt" and e.node.get("k") == "mcall" and last(e.node.get("callee", "")) == "push_back" and e.node.get("args")]
-        table[lit[0]] = pushed[0] if len(pushed) == 1 else None
+        js = [j for j, a in enumerate(n.get("args", [])) if is_var(strip_views(a), ed)]
+        if not js:
+            continue
+        gs = [g for g in fb.funcs(n["callee"], XF) if g.ok and len(g.params) == len(n["args"])]
+        if len(gs) != 1:
+            raise AnalysisBroken("decodeEntities passes the entity name to %s, which has %d definitions" % (last(n["callee"]), len(gs)))
+        tab, fallback = lookup_helper_table(gs[0], js[0])
+        held = [v for x in de.stmts() if x.node.get("k") == "decl" for v in x.node["vars"] if v.get("init") is not None and strip_casts(v["init"]) is n and not writes_of(de, v["d"])]
+        if len(held) != 1 or len(fallback) != 1:
+            raise AnalysisBroken("decodeEntities: the result of %s is not held in one unmodified local / the helper has %d no-match values" % (last(n["callee"]), len(fallback)))
+        nomatch = list(fallback)[0]
+        used = False
+        for b in de.blocks.values():
+            co = common.cmp_oriented(b.cond, lambda x: const_value(x) is not None) if b.cond is not None and len(b.succs) == 2 and b.edge_label(0) is True else None
+            if co and co[0] in ("==", "!=") and is_var(co[1], held[0]["d"]) and const_value(co[2]) == nomatch:
+                eb = de.blocks[b.succs[0 if co[0] == "!=" else 1]]
+                if len(pushed_on_out(eb)) == 1 and is_var(pushed_on_out(eb)[0], held[0]["d"]):
+                    used = True
+        if not used:
+            raise AnalysisBroken("decodeEntities: no branch `%s != %r` whose matching edge pushes the looked-up character" % (held[0]["n"], nomatch))
+        for k, v in tab.items():
+            table[k] = None if v == nomatch else v
+    if not table:
+        raise AnalysisBroken("decodeEntities: no comparison of the entity slice with a name literal recognised (neither an if-chain nor a look-up helper)")
     r.instance()
     r.expect(set(table) == set(ENTITIES), de, None, "entity names", "decodeEntities recognises the named entities %s; XML predefines exactly %s (anything else must be an error, never expanded)" % (sorted(table), sorted(ENTITIES)),
              okdesc="exactly the five predefined entity names")
@@ -822,8 +1071,15 @@ def r4(ctx, r):
         r.instance()
         r.expect(ENTITIES.get(k) == v, de, None, "entity &%s;" % k, "&%s; decodes to %r instead of %r" % (k, chr(v) if v else None, chr(ENTITIES[k]) if k in ENTITIES else None), okdesc="&%s; → %r" % (k, chr(v) if v else "?"))
     # '#' goes to appendCharRef, everything else returns false
-    acr = [e for e in de.stmts() if e.node.get("k") in ("call", "mcall") and last(e.node.get("callee", "")) == "appendCharRef"]
-    hb = [b for b in de.blocks.values() if b.cond is not None and common.cmp_parts(b.cond) and const_value(common.cmp_parts(b.cond)[2]) == ord('#') and "ent[0]" in show(b.cond)]
+    hb = []
+    for b in de.blocks.values():
+        co = common.cmp_oriented(b.cond, lambda x: const_value(x) == ord('#')) if b.cond is not None else None
+        x = strip_casts(co[1]) if co and co[0] == "==" else None
+        if x is not None and ((x.get("k") == "opcall" and x.get("op") == "[]" and is_var(strip_views(x["args"][0]), ed) and const_value(x["args"][1]) == 0) or
+                              (x.get("k") == "mcall" and last(x.get("callee", "")) == "front" and is_var(strip_views(x.get("obj")), ed))):
+            hb.append(b)
+    if not hb:
+        raise AnalysisBroken("decodeEntities: no test `<entity slice>[0] == '#'` recognised in front of appendCharRef")
     r.instance()
     ok = len(acr) == 1 and len(hb) == 1 and dominated_by_edge(de, acr[0], hb[0], 0, eh=False)
     r.expect(ok, de, acr[0] if acr else None, "character reference dispatch", "numeric references are not dispatched on a leading '#'", okdesc="&#…; → appendCharRef")
@@ -833,17 +1089,18 @@ def r4(ctx, r):
         fb_ = de.blocks[hb[0].succs[1]]
         # the false edge (and the `!ent.empty()` false edge) must lead to `return false` without pushing
         w = search(de, ("block", fb_.id), lambda x: x.kind == "stmt" and x.node.get("k") == "mcall" and last(x.node.get("callee", "")) in ("push_back", "append"), stop=lambda x: x.kind == "stmt" and x.node.get("k") == "ret", eh=False)
-        rets = [e for e in fb_.elems if e.kind == "stmt" and e.node.get("k") == "ret"]
         w2 = search(de, ("block", fb_.id), lambda x: x.kind == "stmt" and x.node.get("k") == "ret" and const_value(strip_casts(x.node.get("v") or {})) != 0, stop=lambda x: x.kind == "stmt" and x.node.get("k") == "ret" and const_value(strip_casts(x.node.get("v") or {})) == 0, eh=False)
         okf = w is None and w2 is None
     r.expect(okf, de, None, "unknown entity accepted", "an entity name outside the predefined five (and not a numeric reference) does not make decodeEntities return false", okdesc="unknown entity → error")
-    # failing char ref → false
+    # failing char ref → false: the branch on appendCharRef's result (the call itself or a local holding it) returns false on its failing edge
     r.instance()
-    okc = False
-    if acr:
-        okv = [v["n"] for e in de.stmts() if e.node.get("k") == "decl" for v in e.node["vars"] if v.get("init") is not None and "appendCharRef" in show(v["init"])]
-        nb = [b for b in de.blocks.values() if b.cond is not None and okv and show(common.branch(b)[0] or {}) == okv[0]]
-        okc = bool(nb) and any(e.kind == "stmt" and e.node.get("k") == "ret" and const_value(strip_casts(e.node.get("v") or {})) == 0 for e in _reach_until_ret(de, common.branch(nb[0])[2]))
+    br = branch_on_result(de, acr[0])
+    if br is None and not ("root" in acr[0].raw and de.root_elem(acr[0].node) is acr[0]):
+        # the result is used, but not by a branch the rule recognises (returned, combined, stored in a modified local): refuse; a result that is simply
+        # dropped (`appendCharRef(ent, out);` as a statement) is the violation
+        raise AnalysisBroken("decodeEntities: the result of appendCharRef is neither branched on nor dropped — shape not followed")
+    okc = br is not None and any(e.kind == "stmt" and e.node.get("k") == "ret" and const_value(strip_casts(e.node.get("v") or {})) == 0 for e in _reach_until_ret(de, br[2])) and \
+        not any(e.kind == "stmt" and e.node.get("k") == "ret" and const_value(strip_casts(e.node.get("v") or {})) != 0 for e in _reach_until_ret(de, br[2]))
     r.expect(okc, de, None, "bad character reference accepted", "a failing appendCharRef does not fail decodeEntities", okdesc="invalid character reference → error")
     # no I/O anywhere in the header
     n = 0
@@ -862,11 +1119,30 @@ def r4(ctx, r):
         r.ok("no file/socket/process primitive called")
     if n < 35:
         raise AnalysisBroken("only %d functions of xml.hpp analysed (floor 35)" % n)
-    # DOCTYPE content is skipped, not interpreted: readDoctype calls nothing but accessors
+    # DOCTYPE content is skipped, not interpreted: readDoctype calls nothing but accessors — directly or through family helpers, which are followed
+    # (a helper may only call the same accessors: what it hides would otherwise be hidden from this rule)
     rd = xp(ctx, "readDoctype")
-    callees = {last(e.node.get("callee", "")) for e in rd.stmts() if e.node.get("k") in ("call", "mcall")}
+    allowed = {"size", "substr", "advance", "get", "produced", "fail", "operator[]", "basic_string_view", "peek", "eof", "Token", "operator="}
+    fam = {}
+    for g in methods(ctx):
+        fam.setdefault(g.name, []).append(g)
+
+    def leaf_callees(g, seen):
+        out = set()
+        for e in g.stmts():
+            if e.node.get("k") not in ("call", "mcall"):
+                continue
+            c = e.node.get("callee", "")
+            if c in fam and last(c) not in allowed and c not in seen and len(seen) < 6:
+                seen.add(c)
+                for h in fam[c]:
+                    out |= leaf_callees(h, seen)
+            else:
+                out.add(last(c))
+        return out
+    callees = leaf_callees(rd, {rd.name})
     r.instance()
-    r.expect(callees <= {"size", "substr", "advance", "get", "produced", "fail", "operator[]", "basic_string_view", "peek", "eof", "Token", "operator="}, rd, None, "doctype interpreted",
+    r.expect(callees <= allowed, rd, None, "doctype interpreted",
              "readDoctype calls %s — the internal subset must only be skipped" % sorted(callees), okdesc="DOCTYPE skipped, not interpreted")
 
 
@@ -889,86 +1165,431 @@ def utf8_ref(cp):
     return tuple(chr(cp).encode("utf-8"))
 
 
+# ----------------------------------------------------------------------------- R5: dataflow anchors (no local names)
+
+def decl_of(f, d):
+    """(element, variable record) of the declaration of the local with declaration id `d`"""
+    for e in f.stmts():
+        if e.node.get("k") == "decl":
+            for v in e.node["vars"]:
+                if v.get("d") == d:
+                    return e, v
+    return None, None
+
+
+def is_var(n, d):
+    n = strip_casts(n)
+    return n is not None and n.get("k") == "var" and n.get("d") == d
+
+
+def mentions_d(n, d):
+    return any(x.get("k") == "var" and x.get("d") == d for x in walk(n))
+
+
+def writes_of(f, d):
+    """elements that modify the local / parameter with declaration id `d` (assignment, compound assignment, ++/--); the declaration is no write"""
+    out = []
+    for e in f.stmts():
+        n = e.node
+        if n.get("k") == "un" and ("++" in n.get("op", "") or "--" in n.get("op", "")) and is_var(n["v"], d):
+            out.append(e)
+        elif n.get("k") in ("bin", "opcall") and is_assign(n) and is_var(_ap(n)[0], d):
+            out.append(e)
+    return out
+
+
+def view_modified(f, d):
+    return bool(writes_of(f, d)) or any(e.node.get("k") == "mcall" and is_var(e.node.get("obj"), d) and last(e.node.get("callee", "")) in ("remove_prefix", "remove_suffix", "swap") for e in f.stmts())
+
+
+def body_suffix(f, n, depth=0):
+    """If `n` denotes a string_view that is a SUFFIX of f's first parameter — the parameter itself, or an unmodified local
+    initialised with `X.substr(k)` (one argument: it runs to the end) of such a view — the list of offset expressions whose sum is the
+    start of the suffix inside the parameter; None otherwise."""
+    n = strip_views(n)
+    if n is None or n.get("k") != "var" or depth > 4 or view_modified(f, n.get("d")):
+        return None
+    if n.get("parm") is not None:
+        return [] if n["parm"] == 0 else None
+    _, v = decl_of(f, n.get("d"))
+    if v is None or v.get("init") is None:
+        return None
+    i = strip_views(v["init"])
+    if i is not None and i.get("k") == "var":
+        return body_suffix(f, i, depth + 1)
+    if i is not None and i.get("k") == "mcall" and last(i.get("callee", "")) == "substr":
+        args = [a for a in i.get("args", []) if not a.get("def")]
+        base = body_suffix(f, i.get("obj"), depth + 1)
+        if len(args) == 1 and base is not None:
+            return base + [args[0]]
+    return None
+
+
+def case_value(n):
+    """('const', k) or ('cond', declaration id of the tested bool, k when true, k when false) of an integer expression; None otherwise"""
+    n = strip_casts(n)
+    if n is None:
+        return None
+    if const_value(n) is not None:
+        return ("const", const_value(n))
+    if n.get("k") == "cond" and isinstance(n.get("t"), dict) and isinstance(n.get("f"), dict):
+        c = strip_casts(n["c"])
+        kt, kf = const_value(n["t"]), const_value(n["f"])
+        if c is not None and c.get("k") == "var" and kt is not None and kf is not None:
+            return ("cond", c["d"], kt, kf)
+    return None
+
+
+def case_sum(nodes):
+    """case_value of a sum of expressions (at most one of them conditional)"""
+    tot, cond = 0, None
+    for n in nodes:
+        cv = case_value(n)
+        if cv is None or (cv[0] == "cond" and cond is not None):
+            return None
+        if cv[0] == "const":
+            tot += cv[1]
+        else:
+            cond = cv
+    return ("const", tot) if cond is None else ("cond", cond[1], cond[2] + tot, cond[3] + tot)
+
+
+def x_test(f, n):
+    """(char constant, operator) if n is `S[1] == 'x'` / `S[1] != 'x'` ('x' or 'X', S the whole reference body = first parameter), else None"""
+    cp = common.cmp_parts(strip_casts(n)) if n is not None else None
+    if not cp or cp[0] not in ("==", "!="):
+        return None
+    for a, b in ((cp[1], cp[2]), (cp[2], cp[1])):
+        a = strip_casts(a)
+        if const_value(b) in (ord('x'), ord('X')) and a is not None and a.get("k") == "opcall" and a.get("op") == "[]" and body_suffix(f, a["args"][0]) == [] and const_value(a["args"][1]) == 1:
+            return const_value(b), cp[0]
+    return None
+
+
+def ptr_into(f, n, depth=0):
+    """(string_view variable node, [offset expressions]) for `S.data()`, `S.data() + k`, `S.begin()`/`S.end()` or an unmodified pointer local holding one"""
+    n = strip_casts(n)
+    if n is None or depth > 4:
+        return None
+    if n.get("k") == "mcall" and not [a for a in n.get("args", []) if not a.get("def")] and strip_views(n.get("obj")) is not None and strip_views(n["obj"]).get("k") == "var":
+        s = strip_views(n["obj"])
+        if last(n.get("callee", "")) in ("data", "begin", "cbegin"):
+            return s, []
+        if last(n.get("callee", "")) in ("end", "cend"):
+            return s, [{"k": "mcall", "callee": "std::basic_string_view::size", "obj": s, "args": []}]
+    if n.get("k") == "bin" and n.get("op") == "+":
+        for a, b in ((n["lhs"], n["rhs"]), (n["rhs"], n["lhs"])):
+            p = ptr_into(f, a, depth + 1)
+            if p is not None:
+                return p[0], p[1] + [b]
+    if n.get("k") == "var" and n.get("parm") is None and not writes_of(f, n.get("d")):
+        _, v = decl_of(f, n.get("d"))
+        if v is not None and v.get("init") is not None:
+            return ptr_into(f, v["init"], depth + 1)
+    return None
+
+
+def is_size_of(n, d):
+    n = strip_casts(n)
+    return n is not None and n.get("k") == "mcall" and last(n.get("callee", "")) in ("size", "length") and is_var(strip_views(n.get("obj")), d)
+
+
 def r5(ctx, r):
+    """Numeric character references.  Nothing here is identified by a local's name: the code point is the variable handed to encodeUtf8,
+    the reference body is appendCharRef's first parameter, digit bytes are locals initialised from a subscript of the body, digit
+    values are whatever the accumulator update reads besides the code point."""
+    from ..finite import WIDTH, _ty
+    from ..expr import children
     acr, enc = xp(ctx, "appendCharRef"), xp(ctx, "encodeUtf8")
-    # accumulators
-    accs = []
+    if not acr.params or "string_view" not in acr.params[0]["t"]:
+        raise AnalysisBroken("appendCharRef: the first parameter is not the string_view holding the reference body")
+    if view_modified(acr, acr.params[0].get("d")):
+        raise AnalysisBroken("appendCharRef modifies its reference-body parameter: offsets into it cannot be related to the '#'/'x' prefix")
+    encs = [e for e in acr.stmts() if e.node.get("k") in ("call", "mcall") and e.node.get("callee") == enc.name]
+    if len(encs) != 1 or not encs[0].node.get("args") or strip_casts(encs[0].node["args"][0]).get("k") != "var" or strip_casts(encs[0].node["args"][0]).get("parm") is not None:
+        raise AnalysisBroken("appendCharRef: expected exactly one call encodeUtf8(<local code point>, out)")
+    enc_call = encs[0]
+    code = strip_casts(enc_call.node["args"][0])
+    cd, cname = code["d"], code["n"]
+    w, pw = WIDTH.get(_ty(code.get("t"))), WIDTH.get(_ty(enc.params[0]["t"]))
+    if w is None or pw is None:
+        raise AnalysisBroken("appendCharRef: code point of type %s / encodeUtf8 parameter of type %s" % (code.get("t"), enc.params[0]["t"]))
+    accs, fcs, other_w = [], [], []
     for e in acr.stmts():
-        ap = assign_parts(e.node)
-        if ap and strip_casts(ap[0]).get("n") == "code" and any(x.get("k") == "var" and x["n"] == "code" for x in walk(ap[1])):
-            accs.append(e)
-    if len(accs) != 2:
-        raise AnalysisBroken("appendCharRef: %d accumulator updates (expected hex and decimal)" % len(accs))
+        n = e.node
+        ap = assign_parts(n)
+        if ap and is_var(ap[0], cd):
+            (accs if mentions_d(ap[1], cd) else other_w).append(e)
+        elif n.get("k") in ("bin", "opcall", "un") and e in writes_of(acr, cd):
+            other_w.append(e)
+        elif n.get("k") in ("call", "mcall") and any(is_var(a, cd) or (strip_casts(a).get("k") == "un" and strip_casts(a).get("op") == "&" and is_var(strip_casts(a)["v"], cd)) for a in n.get("args", [])) and e is not enc_call:
+            if n.get("k") == "call" and last(n.get("callee", "")) == "from_chars" and len(n["args"]) >= 3 and is_var(n["args"][2], cd):
+                fcs.append(e)
+            else:
+                other_w.append(e)
+    other_w = [e for e in other_w if not (assign_parts(e.node) and const_value(strip_casts(assign_parts(e.node)[1])) == 0)]
+    if other_w:
+        raise AnalysisBroken("appendCharRef: the code point is also produced by `%s`, a shape the rule cannot classify (known: digit accumulation loops, std::from_chars)" % show(other_w[0].node)[:80])
+    if not accs and not fcs:
+        raise AnalysisBroken("appendCharRef: the code point handed to encodeUtf8 is neither accumulated digit by digit nor parsed by std::from_chars")
+    accepts = [e for e in common.returns(acr) if const_value(strip_casts(e.node.get("v") or {})) != 0]
+    if not accepts:
+        raise AnalysisBroken("appendCharRef has no accepting return")
+    # 'x' prefix tests (branching blocks) — (block, index of the edge taken when byte 1 IS x/X)
+    xblocks = []
+    for b in acr.blocks.values():
+        if b.cond is not None and len(b.succs) == 2 and b.edge_label(0) is True:
+            xt = x_test(acr, b.cond)
+            if xt:
+                xblocks.append((b, 0 if xt[1] == "==" else 1, xt[0]))
+
+    def radix_relation(site, start, base, what):
+        """the digits start right behind the prefix and the radix is the one the prefix selects: start 2 / radix 16 exactly when byte 1 is
+        x|X, start 1 / radix 10 otherwise"""
+        r.instance()
+        if start is None or base is None:
+            raise AnalysisBroken("appendCharRef: %s: start offset / radix are not constants or `flag ? a : b`" % what)
+        if start[0] == "const" and base[0] == "const":
+            k, bs = start[1], base[1]
+            if not any(c == ord('x') for _, _, c in xblocks):
+                raise AnalysisBroken("appendCharRef: no branch on `body[1] == 'x'` recognised")
+            if bs == 16:
+                path_ok = search(acr, ("entry",), lambda x: x is site, edge_ok=lambda bl, si: not any(bl is xb and si == hi for xb, hi, _ in xblocks), eh=False) is None
+            else:
+                path_ok = all(dominated_by_edge(acr, site, xb, 1 - hi, eh=False) for xb, hi, _ in xblocks)
+            r.expect((k, bs) in ((2, 16), (1, 10)) and path_ok, acr, site, "digits start / radix: %s" % what,
+                     "%s reads radix-%d digits from offset %d of the reference body%s: `&#x…;` is hexadecimal from offset 2, `&#…;` decimal from offset 1 — a byte of the reference is skipped or read in the wrong radix"
+                     % (what, bs, k, "" if path_ok else " on a path where the 'x' prefix test went the other way"), okdesc="%s: radix %d from offset %d, selected by the 'x' test" % (what, bs, k))
+            return
+        if start[0] == "cond" and base[0] == "cond" and start[1] == base[1]:
+            _, v = decl_of(acr, start[1])
+            leaves = []
+            work = [strip_casts(v["init"])] if v is not None and v.get("init") is not None else []
+            while work:
+                x = strip_casts(work.pop())
+                if x.get("k") == "bin" and x.get("op") == "||":
+                    work += [x["lhs"], x["rhs"]]
+                else:
+                    leaves.append(x_test(acr, x))
+            if not leaves or any(l is None or l[1] != "==" for l in leaves) or not any(l[0] == ord('x') for l in leaves) or writes_of(acr, start[1]):
+                raise AnalysisBroken("appendCharRef: %s: the flag selecting offset and radix is not `body[1] == 'x' || body[1] == 'X'`" % what)
+            r.expect((start[2], base[2]) == (2, 16) and (start[3], base[3]) == (1, 10), acr, site, "digits start / radix: %s" % what,
+                     "%s reads radix %d from offset %d behind an 'x' prefix and radix %d from offset %d otherwise (expected 16 from 2, 10 from 1): a byte of the reference is skipped or read in the wrong radix"
+                     % (what, base[2], start[2], base[3], start[3]), okdesc="%s: 'x' ? radix 16 from 2 : radix 10 from 1" % what)
+            return
+        raise AnalysisBroken("appendCharRef: %s: start offset and radix are not selected by the same test" % what)
+
+    def digit_exact(e, ex, cv, radix):
+        """the digit expression `ex` (evaluated at element e) over the byte local `cv`: delimited by range tests on the byte, and on that
+        range every byte is a digit of the radix and the value is the digit's value — so a byte that is no digit cannot reach it"""
+        r.instance()
+        if not mentions_d(ex, cv["d"]):
+            r.fail(acr, e, "digit value: %s" % show(ex)[:20], "the digit value `%s` is not computed from the byte just read: a byte that is no digit is consumed with that value instead of failing the reference" % show(ex)[:60])
+            return
+        facts = [(c, t) for (c, t) in dominating_facts(acr, e) if mentions_d(c, cv["d"])]
+        lo, hi = interval_of(facts, cv["n"])
+        if lo is None or hi is None:
+            r.fail(acr, e, "digit range", "the digit expression `%s` is not delimited by range tests on `%s`: a byte that is no digit is consumed as one" % (show(ex), cv["n"]))
+            return
+        free = sorted({x["n"] for x in walk(ex) if x.get("k") == "var" and x.get("d") != cv["d"]})
+        if free:
+            raise AnalysisBroken("digit expression `%s` reads %s besides the byte" % (show(ex)[:60], free))
+        try:
+            fn = compile_expr(ex, [cv["n"]])[0]
+        except NotPure as exn:
+            raise AnalysisBroken("digit expression not pure: %s" % exn)
+        digits = "0123456789abcdefABCDEF" if radix == 16 else "0123456789"
+        bad = [c for c in range(lo, hi + 1) if not (0 <= c < 128 and chr(c) in digits and fn(c) == int(chr(c), 16))]
+        r.expect(not bad, acr, e, "digit value: %s" % show(ex)[:20], "for the byte %r the digit expression `%s` yields %s" % (chr(bad[0]) if bad and 0 <= bad[0] < 128 else (bad[0] if bad else ""), show(ex), fn(bad[0]) if bad else ""),
+                 okdesc="`%s` exact on '%s'…'%s'" % (show(ex)[:24], chr(lo), chr(hi)))
+
+    full_edges, loops_failed = set(), False
+    # ---- form A: digit accumulation loops
     for e in accs:
         rhs = assign_parts(e.node)[1]
-        # the growth factor: evaluate the update at digit 0 symbolically: code' = f(code, d)
-        guards = [b for b in acr.blocks.values() if b.cond is not None and common.cmp_parts(b.cond) and strip_casts(common.cmp_parts(b.cond)[1]).get("n") == "code" and common.cmp_parts(b.cond)[0] in (">", ">=")
-                  and const_value(common.cmp_parts(b.cond)[2]) is not None]
-        ok, why = False, "no `code > K` test inside the loop"
+        others = []
+        for x in walk(rhs):
+            if x.get("k") == "var" and x.get("d") != cd and x["n"] not in others:
+                others.append(x["n"])
+        try:
+            fn = compile_expr(rhs, [cname] + others)[0]
+        except NotPure as ex:
+            raise AnalysisBroken("accumulator update not pure: %s" % ex)
+        zeros = [0] * len(others)
+        radix = (fn(1, *zeros) - fn(0, *zeros)) % (1 << w)
+        if radix not in (10, 16) or (fn(3, *zeros) - fn(0, *zeros)) % (1 << w) != 3 * radix:
+            raise AnalysisBroken("accumulator update `%s` is not `code * 10 + d` / `code * 16 + d`" % show(rhs)[:60])
+        # (a) the accumulator cannot wrap: an in-loop magnitude test on the code point, failing edge leaves with false
+        guards = [b for b in acr.blocks.values() if b.cond is not None and common.cmp_oriented(b.cond, lambda x: const_value(x) is not None) and is_var(common.cmp_oriented(b.cond, lambda x: const_value(x) is not None)[1], cd)
+                  and common.cmp_oriented(b.cond, lambda x: const_value(x) is not None)[0] in (">", ">=")]
+        ok, why = False, "no `%s > K` test inside the loop" % cname
         for b in guards:
-            K = const_value(common.cmp_parts(b.cond)[2]) - (1 if common.cmp_parts(b.cond)[0] == ">=" else 0)
+            op_, _, kk = common.cmp_oriented(b.cond, lambda x: const_value(x) is not None)
+            K = const_value(kk) - (1 if op_ == ">=" else 0)
             # every path from the update back to itself passes the guard's false edge, and the true edge returns false
             loop_ok = search(acr, e, lambda x: x is e, stop=lambda x: x.block is b, eh=False) is None and search(acr, e, lambda x: x is e, eh=False) is not None
             if not loop_ok:
                 continue
-            try:
-                other = sorted({x["n"] for x in walk(rhs) if x.get("k") == "var" and x["n"] != "code"})
-                fn = compile_expr(rhs, ["code"] + other)[0]
-                tys = {x["n"]: x.get("t") for x in walk(rhs) if x.get("k") == "var"}
-            except NotPure as ex:
-                raise AnalysisBroken("accumulator update not pure: %s" % ex)
-            # with code <= K and a digit value <= 15 the exact (unbounded) result must be < 2^32
-            dmax = 15
-            exact_hex = (K << 4) | dmax
-            exact_dec = K * 10 + 9
-            wraps = max(exact_hex, exact_dec) >= 2 ** 32
+            # with code <= K and the largest digit the exact (unbounded) result must still fit the accumulator and the encoder's parameter
+            wraps = max((K << 4) | 15, K * 10 + 9) >= 2 ** min(w, pw)
             tb = acr.blocks[b.succs[0]]
             retf = any(x.kind == "stmt" and x.node.get("k") == "ret" and const_value(strip_casts(x.node.get("v") or {})) == 0 for x in tb.elems)
             if not wraps and retf and K >= 0x10FFFF:
                 ok = True
             else:
-                why = "the in-loop bound %#x %s" % (K, "still lets the 32-bit accumulator wrap" if wraps else ("rejects valid code points" if K < 0x10FFFF else "does not return false"))
+                why = "the in-loop bound %#x %s" % (K, "still lets the %d-bit accumulator wrap" % min(w, pw) if wraps else ("rejects valid code points" if K < 0x10FFFF else "does not return false"))
         r.instance()
-        r.expect(ok, acr, e, "accumulator wrap: %s" % show(rhs)[:24], "the character-reference accumulator `code = %s` can wrap around 2^32 (%s): &#4294967361; decodes to 'A' instead of being rejected" % (show(rhs), why),
+        r.expect(ok, acr, e, "accumulator wrap: %s" % show(rhs)[:24], "the character-reference accumulator `%s = %s` can wrap around 2^%d (%s): &#4294967361; decodes to 'A' instead of being rejected" % (cname, show(rhs), min(w, pw), why),
                  okdesc="accumulator `%s` range-tested inside the loop" % show(rhs)[:24])
-    # digit values: exact under their guards
-    digs = []
-    for e in acr.stmts():
-        ap = assign_parts(e.node)
-        if ap and strip_casts(ap[0]).get("n") == "v" and any(x.get("k") == "var" and x["n"] == "c" for x in walk(ap[1])):
-            digs.append((e, ap[1], "hex"))
-    dec_terms = [x for e in accs for x in walk(assign_parts(e.node)[1]) if x.get("k") == "cast" and any(y.get("k") == "var" and y["n"] == "c" for y in walk(x)) and "unsigned" in (x.get("t") or "")]
-    for x in dec_terms:
-        digs.append((acr.elem_for(x), x, "dec"))
-    if len(digs) < 4:
-        raise AnalysisBroken("appendCharRef: only %d digit-value expressions found (expected 3 hex + 1 decimal)" % len(digs))
-    for (e, ex, kind) in digs:
-        facts = dominating_facts(acr, e)
-        lo, hi = interval_of(facts, "c")
+        # (b) the loop: `for (idx = k; idx < S.size(); ++idx)` over a suffix S of the body, one byte per iteration
+        heads = [b for b in acr.blocks.values() if b.term and b.term.get("k") in ("ForStmt", "WhileStmt") and b.cond is not None and len(b.succs) == 2 and None not in b.succs
+                 and dominated_by_edge(acr, e, b, 0, eh=False) and search(acr, e, lambda x, b=b: x.block is b, eh=False) is not None]
+        if len(heads) != 1:
+            raise AnalysisBroken("appendCharRef: the accumulator update `%s` lies in %d loops (expected one loop over the reference body)" % (show(rhs)[:40], len(heads)))
+        h = heads[0]
+        co = common.cmp_oriented(h.cond, lambda x: strip_casts(x).get("k") == "mcall" and last(strip_casts(x).get("callee", "")) in ("size", "length") and body_suffix(acr, strip_casts(x).get("obj")) is not None)
+        if not co or co[0] != "<" or strip_casts(co[1]).get("k") != "var":
+            raise AnalysisBroken("appendCharRef: digit loop condition `%s` is not `index < body.size()`" % show(h.cond)[:60])
+        idx, sview = strip_casts(co[1]), strip_views(strip_casts(co[2])["obj"])
+        _, iv = decl_of(acr, idx["d"])
+        incs = writes_of(acr, idx["d"])
+        if iv is None or not incs or any(not (x.node.get("k") == "un" and "++" in x.node.get("op", "")) for x in incs):
+            raise AnalysisBroken("appendCharRef: the digit loop index `%s` is not a local advanced only by ++" % idx["n"])
+        in_h = lambda x: x.block is h
+        once = search(acr, ("block", h.succs[0]), in_h, stop=lambda x: x in incs, eh=False) is None and all(search(acr, i_, lambda x: x in incs, stop=in_h, eh=False) is None for i_ in incs)
+        if not once:
+            raise AnalysisBroken("appendCharRef: the digit loop does not advance `%s` exactly once per iteration" % idx["n"])
+        what = "the %s digit loop" % ("hexadecimal" if radix == 16 else "decimal")
+        radix_relation(e, case_sum(body_suffix(acr, sview) + [iv.get("init") or {}]), ("const", radix), what)
+        # (c) the byte of this iteration: a local initialised `S[idx]`, read before the index moves
+        cdecls = []
+        for x in acr.stmts():
+            if x.node.get("k") == "decl" and elem_dominates(acr, x, e, eh=False) and dominated_by_edge(acr, x, h, 0, eh=False):
+                for v in x.node["vars"]:
+                    i = strip_casts(v.get("init") or {})
+                    if i.get("k") == "opcall" and i.get("op") == "[]" and is_var(strip_views(i["args"][0]), sview["d"]) and is_var(i["args"][1], idx["d"]):
+                        cdecls.append((x, v))
+        if len(cdecls) != 1:
+            raise AnalysisBroken("appendCharRef: %s does not hold the byte `%s[%s]` in exactly one local (%d found)" % (what, sview["n"], idx["n"], len(cdecls)))
+        cdecl, cv = cdecls[0]
+        if writes_of(acr, cv["d"]) or any(search(acr, cdecl, lambda x, i_=i_: x is i_, stop=lambda x: x is e or in_h(x), eh=False) is not None and search(acr, i_, lambda x: x is e, stop=in_h, eh=False) is not None for i_ in incs):
+            raise AnalysisBroken("appendCharRef: the byte local `%s` is modified / the index moves between the read and the accumulator update" % cv["n"])
+        # (d) every byte is consumed as a digit: an iteration ends only in the accumulator update or in a failing return — never by going on
+        #     to the next byte, leaving the loop or accepting with the byte unused
         r.instance()
-        if lo is None or hi is None:
-            r.fail(acr, e, "digit range", "the digit expression `%s` is not delimited by range tests on `c`" % show(ex))
-            continue
-        try:
-            fn = compile_expr(ex, ["c"])[0]
-        except NotPure as exn:
-            raise AnalysisBroken("digit expression not pure: %s" % exn)
-        bad = [c for c in range(lo, hi + 1) if not (chr(c) in "0123456789abcdefABCDEF" and (kind == "hex" or chr(c).isdigit()) and fn(c) == int(chr(c), 16))]
-        r.expect(not bad, acr, e, "digit value: %s" % show(ex)[:20], "for the character %r the digit expression `%s` yields %s" % (chr(bad[0]) if bad else "", show(ex), fn(bad[0]) if bad else ""),
-                 okdesc="`%s` exact on '%s'…'%s'" % (show(ex)[:24], chr(lo), chr(hi)))
-    # radix dispatch: 'x'/'X' → hex accumulate from index 2, else decimal from index 1
-    r.instance()
-    xb = [b for b in acr.blocks.values() if b.cond is not None and any(const_value(x) == ord('x') for x in walk(b.cond) if x.get("k") == "char")]
-    r.expect(bool(xb), acr, None, "radix dispatch", "appendCharRef does not dispatch on 'x'", okdesc="&#x…; hex, &#…; decimal")
+        wp = search(acr, ("block", h.succs[0]), lambda x: in_h(x) or x in accepts or x is enc_call, stop=lambda x: x is e, eh=False)
+        if wp is not None:
+            loops_failed = True
+            r.fail(acr, e, "byte of a character reference not consumed as a digit", "%s of appendCharRef can finish an iteration without passing the accumulator update `%s = %s` and without failing: a byte of the reference body that "
+                   "is no digit is skipped or ends the number, and the reference is still expanded — `&#65x;` decodes to 'A' instead of being an error" % (what, cname, show(rhs)), witness=witness_str(acr, wp))
+        else:
+            r.ok("%s: every iteration updates the accumulator or fails" % what)
+            full_edges.add((h.id, 1))
+        # (e) the digit value: exact on the guard-delimited byte range, hence no other byte reaches the update
+        parts = []
+
+        def code_free(n):
+            if not mentions_d(n, cd):
+                parts.append(n)
+                return
+            for ch in children(n):
+                code_free(ch)
+        code_free(rhs)
+        nd = 0
+        for p in parts:
+            if const_value(p) is not None:
+                continue
+            ps = strip_casts(p)
+            if mentions_d(p, cv["d"]):
+                nd += 1
+                digit_exact(acr.elem_for(p) or e, p, cv, radix)
+            elif ps.get("k") == "var" and ps.get("parm") is None:
+                vw = [x for x in writes_of(acr, ps["d"]) if dominated_by_edge(acr, x, h, 0, eh=False)]
+                for x in vw:
+                    nd += 1
+                    digit_exact(x, assign_parts(x.node)[1] if assign_parts(x.node) else x.node, cv, radix)
+                r.instance()
+                wv = search(acr, cdecl, lambda x: x is e, stop=lambda x: x in vw, eh=False)
+                r.expect(wv is None, acr, e, "digit value unset", "%s reaches `%s = %s` on a path where `%s` was not computed from the byte just read (its initial value is used): a byte that is no digit is consumed instead of "
+                         "failing the reference" % (what, cname, show(rhs), ps["n"]), okdesc="`%s` assigned from the byte on every path to the update" % ps["n"], witness=witness_str(acr, wv) if wv else None)
+            else:
+                raise AnalysisBroken("accumulator update reads `%s`, which is neither the byte nor a local digit value" % show(p)[:50])
+        if nd == 0:
+            raise AnalysisBroken("appendCharRef: no digit-value expression found for `%s`" % show(rhs)[:40])
+    # ---- form B: std::from_chars — strict by itself (no sign, no prefix, no white space), but it STOPS at the first byte that is no digit:
+    #      the result is the reference's value only if the error code is clear AND the returned pointer is the end of the body
+    for e in fcs:
+        n = e.node
+        res = [v for x in acr.stmts() if x.node.get("k") == "decl" for v in x.node["vars"] if v.get("init") is not None and strip_views(v["init"]) is n]
+        if len(res) != 1 or writes_of(acr, res[0]["d"]):
+            raise AnalysisBroken("appendCharRef: the result of std::from_chars is not held in one unmodified local")
+        rd = res[0]["d"]
+        first, lastp = ptr_into(acr, n["args"][0]), ptr_into(acr, n["args"][1])
+        if first is None or lastp is None or first[0].get("d") != lastp[0].get("d") or body_suffix(acr, first[0]) is None or len(lastp[1]) != 1 or not is_size_of(lastp[1][0], first[0]["d"]):
+            raise AnalysisBroken("appendCharRef: std::from_chars(%s, %s, …) is not called on [S.data() + k, S.data() + S.size()) of a suffix S of the reference body" % (show(n["args"][0])[:40], show(n["args"][1])[:40]))
+        bargs = [a for a in n["args"][3:] if not a.get("def")]
+        radix_relation(e, case_sum(body_suffix(acr, first[0]) + first[1]), case_value(bargs[0]) if bargs else ("const", 10), "std::from_chars")
+        r.instance()
+        r.expect(w <= pw, acr, e, "code point narrowed", "std::from_chars parses into a %d-bit `%s` that is narrowed to encodeUtf8's %d-bit parameter: values beyond 2^%d wrap instead of being rejected" % (w, cname, pw, pw),
+                 okdesc="from_chars target as wide as the encoder's parameter (overflow is an error code)")
+
+        def res_member(x, fld):
+            x = strip_casts(x)
+            return x is not None and x.get("k") == "member" and last(x.get("n", "")) == fld and is_var(x.get("b"), rd)
+        branched = set()
+        ptr_e, ec_e = set(), set()
+        for b in acr.blocks.values():
+            cp = common.cmp_parts(strip_casts(b.cond)) if b.cond is not None and len(b.succs) == 2 and b.edge_label(0) is True else None
+            if not cp or cp[0] not in ("==", "!="):
+                continue
+            eq = 0 if cp[0] == "==" else 1
+            for a, o in ((cp[1], cp[2]), (cp[2], cp[1])):
+                if res_member(a, "ptr"):
+                    branched.add(strip_casts(b.cond).get("id"))
+                    po = ptr_into(acr, o)
+                    if po is not None and po[0].get("d") == lastp[0].get("d") and len(po[1]) == 1 and is_size_of(po[1][0], lastp[0]["d"]):
+                        ptr_e.add((b.id, eq))
+                elif res_member(a, "ec"):
+                    branched.add(strip_casts(b.cond).get("id"))
+                    if (const_value(o) == 0 or o.get("cv") == 0) and "errc" in (strip_casts(a).get("t") or ""):     # `std::errc{}`: the value-initialised cast carries the constant
+                        ec_e.add((b.id, eq))
+        # comparisons of the result that are computed as VALUES (`bool ok = res.ptr == end && …`) are not followed: refuse rather than alarm
+        unbranched = [x for x in acr.nodes.values() if common.cmp_parts(x) and x.get("id") not in branched and any(res_member(y, "ptr") or res_member(y, "ec") for y in (common.cmp_parts(x)[1], common.cmp_parts(x)[2]))]
+        for a in accepts:
+            w_ptr = search(acr, e, lambda x, a=a: x is a, edge_ok=lambda bl, si: (bl.id, si) not in ptr_e, eh=False)
+            w_ec = search(acr, e, lambda x, a=a: x is a, edge_ok=lambda bl, si: (bl.id, si) not in ec_e, eh=False)
+            if (w_ptr is not None or w_ec is not None) and unbranched:
+                raise AnalysisBroken("appendCharRef: the from_chars result is tested in `%s`, computed as a value rather than branched on — the rule does not follow it" % show(unbranched[0])[:80])
+            r.instance()
+            r.expect(w_ptr is None, acr, e, "character reference not fully consumed", "appendCharRef parses the reference with std::from_chars(%s, %s, …) and accepts the value on a path that never tests `%s.ptr == %s`: from_chars stops at the "
+                     "first byte that is no digit, so the rest of the reference body up to ';' is dropped — `&#65x;`, `&#x41g;`, `&#38amp;` are expanded ('A', 'A', '&') instead of being errors"
+                     % (show(n["args"][0])[:30], show(n["args"][1])[:40], res[0]["n"], show(n["args"][1])[:40]), okdesc="from_chars: accepted only with ptr == end of the reference body", witness=witness_str(acr, w_ptr) if w_ptr else None)
+            r.instance()
+            r.expect(w_ec is None, acr, e, "from_chars error code ignored", "appendCharRef accepts the value of std::from_chars on a path that never tests `%s.ec == std::errc{}`: without digits or on overflow `%s` keeps its old value "
+                     "and that is expanded" % (res[0]["n"], cname), okdesc="from_chars: accepted only with a clear error code (digits present, value fits)", witness=witness_str(acr, w_ec) if w_ec else None)
+        full_edges |= ptr_e
+    # ---- every accepting return lies behind a complete decode: the exit edge of a verified digit loop or a `ptr == end` edge
+    if not loops_failed and accs:
+        for a in accepts:
+            r.instance()
+            wa = search(acr, ("entry",), lambda x, a=a: x is a, edge_ok=lambda bl, si: (bl.id, si) not in full_edges, eh=False)
+            r.expect(wa is None or bool(fcs), acr, a, "character reference accepted without a complete decode", "appendCharRef reaches an accepting return without leaving a digit loop through its `index < size` test: "
+                     "part of the reference body is never looked at", okdesc="accepting return only behind the end of a digit loop / a ptr == end test", witness=witness_str(acr, wa) if wa else None)
     # the encoder, exactly
+    outp = [p for p in enc.params if "basic_string" in p["t"] and "&" in p["t"] and "const" not in p["t"]]
+    if len(outp) != 1 or len(enc.params) != 2:
+        raise AnalysisBroken("encodeUtf8: expected (code point, std::string &out)")
+    od = outp[0].get("d")
+
     def is_app(n):
-        if n.get("k") == "mcall" and last(n.get("callee", "")) == "push_back" and strip_casts(n.get("obj") or {}).get("n") == "out":
+        if n.get("k") == "mcall" and last(n.get("callee", "")) == "push_back" and is_var(n.get("obj"), od):
             return n["args"][0]
-        if n.get("k") == "opcall" and n.get("op") == "+=" and strip_casts(n["args"][0]).get("n") == "out":
+        if n.get("k") == "opcall" and n.get("op") == "+=" and is_var(n["args"][0], od):
             return n["args"][1]
         return None
+    cpp = [p for p in enc.params if p is not outp[0]][0]
     try:
-        run = eval_loopfree(enc, enc.params[0]["n"], None, is_app)
+        run = eval_loopfree(enc, cpp["n"], None, is_app)
     except NotPure as ex:
         raise AnalysisBroken("encodeUtf8 is outside the loop-free pure fragment: %s" % ex)
     bad = None
@@ -986,13 +1607,31 @@ def r5(ctx, r):
             break
     r.instance()
     r.expect(bad is None, enc, None, "UTF-8 encoder", "encodeUtf8: U+%X %s" % (bad if bad else (0, "")), okdesc="encodeUtf8 exact on all %d code points (valid encoded, surrogates and >10FFFF rejected)" % n)
-    # the encoder's verdict is propagated
+    # the encoder's verdict is propagated: every accepting return is either behind the true edge of a branch on the call, or returns the
+    # call's value itself (`return encodeUtf8(code, out);`, possibly as a conjunct)
     r.instance()
-    callb = [b for b in acr.blocks.values() if b.cond is not None and "encodeUtf8" in show(b.cond)]
-    cbr = common.branch(callb[0]) if len(callb) == 1 else (None, None, None)
-    r.expect(len(callb) == 1 and cbr[0] is not None and cbr[0].get("k") in ("call", "mcall") and cbr[2] is not None and
-             any(e.kind == "stmt" and e.node.get("k") == "ret" and const_value(strip_casts(e.node.get("v") or {})) == 0 for e in acr.blocks[cbr[2]].elems),
-             acr, None, "encoder verdict dropped", "appendCharRef ignores a failing encodeUtf8", okdesc="encoder failure → appendCharRef fails")
+    r.expect(all(verdict_propagated(acr, a, enc_call) for a in accepts), acr, enc_call, "encoder verdict dropped", "appendCharRef ignores a failing encodeUtf8", okdesc="encoder failure → appendCharRef fails")
+
+
+def verdict_propagated(f, ret, call):
+    """the return `ret` of f yields true only if `call` (a bool-returning call element of f) did: it returns the call's value itself
+    (possibly as a conjunct of `&&`), or it is dominated by the true edge of a branch on the call"""
+    v = strip_casts(ret.node.get("v") or {})
+    work = [v]
+    while work:
+        x = strip_casts(work.pop())
+        if x is call.node:
+            return True
+        if x is not None and x.get("k") == "bin" and x.get("op") == "&&":
+            work += [x["lhs"], x["rhs"]]
+    for b in f.blocks.values():
+        if b.cond is None or len(b.succs) != 2:
+            continue
+        c, st, sf = common.branch(b)
+        if c is call.node and st is not None and st != sf:
+            if dominated_by_edge(f, ret, b, b.succs.index(st), eh=False):
+                return True
+    return False
 
 
 def r6(ctx, r):
@@ -1009,6 +1648,12 @@ def r6(ctx, r):
                  okdesc="%s: tokens only via next()/current()" % last(f.name))
         sw = [b for b in f.blocks.values() if b.term and b.term.get("k") == "SwitchStmt" and "kind" in show(b.cond or {})]
         r.instance()
+        if not sw:
+            raise AnalysisBroken("%s: no switch over the token kind (moved into a helper?) — dispatch not followed" % short(f.name))
+        pp = [p.get("d") for p in f.params if p["t"].startswith(XP + " &") or "SaxCallbacks" in p["t"]]
+        for e in f.stmts():
+            if e.node.get("k") in ("call", "mcall", "opcall") and not (e.node.get("callee") or "").startswith(XP + "::") and any(is_var(strip_wrappers(a), d) for a in e.node.get("args", []) for d in pp):
+                raise AnalysisBroken("%s hands the parser / the callbacks object to `%s`: what happens to the token stream there is not followed" % (short(f.name), show(e.node)[:60]))
         if not r.expect(len(sw) == 1, f, None, "token switch", "%s has %d switches over the token kind" % (short(f.name), len(sw))):
             continue
         sw = sw[0]
@@ -1032,11 +1677,16 @@ def r6(ctx, r):
         r.instance()
         lp = [b for b in f.blocks.values() if b.term and b.term.get("k") == "WhileStmt" and b.cond is not None and "next()" in show(b.cond)]
         r.expect(len(lp) == 1 and "error" in used, f, None, "driver loop", "%s is not a `while (parser.next())` loop whose verdict consults parser.error()" % short(f.name), okdesc="%s: while(next()) … error()" % last(f.name))
-    # SAX: each case invokes the matching callback with the token
+    # SAX: each case invokes the matching callback with the token.  The callbacks object is the SaxCallbacks parameter, the token is the local
+    # bound to parser.current() (dataflow, not names); an invocation is `cb.onX(t)` itself or a call of a local lambda / helper that receives
+    # `cb.onX` as an argument and invokes that parameter once with the token.
+    cbp = [p for p in sax.params if "SaxCallbacks" in p["t"]]
+    if len(cbp) != 1:
+        raise AnalysisBroken("runSax: no SaxCallbacks parameter")
     cbmap = {"XmlDecl": "onXmlDecl", "Doctype": "onDoctype", "StartElement": "onStartElement", "EndElement": "onEndElement", "EmptyElement": "onEmptyElement", "Text": "onText", "CData": "onCData", "Comment": "onComment",
              "ProcessingInstruction": "onPI"}
     sw = [b for b in sax.blocks.values() if b.term and b.term.get("k") == "SwitchStmt"][0]
-    from .c13 import arm_elems
+    tok_s = token_local(sax)
     for si in range(len(sw.succs)):
         lab = sw.edge_label(si)
         if not lab or lab == "default":
@@ -1044,52 +1694,195 @@ def r6(ctx, r):
         ks = [last(x["n"]) for x in walk(lab[1]) if x.get("k") == "enum"]
         if not ks or ks[0] not in cbmap:
             continue
-        els, _ = arm_elems(sax, sw, si)
-        inv = [show(e.node) for e in els if e.kind == "stmt" and e.node.get("k") == "opcall" and e.node.get("op") == "()"]
+        els = kind_arm(sax, sw, si, ks[0], tok_s)
+        inv = sax_invocations(fb, sax, els, cbp[0].get("d"), tok_s)
         r.instance()
-        r.expect(len(inv) == 1 and ("cb." + cbmap[ks[0]] + "(") in inv[0] and inv[0].endswith("(t)"), sax, None, "SAX dispatch: %s" % ks[0], "runSax dispatches TokenKind::%s to %s instead of cb.%s(t)" % (ks[0], inv, cbmap[ks[0]]),
+        r.expect(inv == [(cbmap[ks[0]], True)], sax, None, "SAX dispatch: %s" % ks[0], "runSax dispatches TokenKind::%s to %s instead of cb.%s(<the current token>)" % (ks[0], ["%s(%s)" % (c, "token" if t else "?") for c, t in inv], cbmap[ks[0]]),
                  okdesc="%s → %s" % (ks[0], cbmap[ks[0]]))
-    # DOM: StartElement pushes, EndElement pops behind the size test, EmptyElement neither; text/attribute values decoded
+    # DOM: StartElement pushes, EndElement pops behind the size test, EmptyElement neither; text/attribute values decoded.  The node stack is the
+    # local std::vector<Node *>; an arm is followed under the assumption `t.kind == <its kind>` (merged cases that test the kind again), attachments
+    # and entity decoding are followed into helpers of the builder.
     sw = [b for b in dom.blocks.values() if b.term and b.term.get("k") == "SwitchStmt"][0]
+    tok_d = token_local(dom)
+    sds = [v for e in dom.stmts() if e.node.get("k") == "decl" for v in e.node["vars"] if "vector<" in (v.get("t") or "") and "Node *" in (v.get("t") or "")]
+    if len(sds) != 1:
+        raise AnalysisBroken("DomBuilder::build: %d local std::vector<Node *> (expected the one node stack)" % len(sds))
+    sd = sds[0]["d"]
+    if any(e.node.get("k") in ("call", "mcall") and any(is_var(strip_wrappers(a), sd) for a in e.node.get("args", [])) for e in dom.stmts()):
+        raise AnalysisBroken("DomBuilder::build hands the node stack to another function: pushes and pops there are not followed")
     arms = {}
     for si in range(len(sw.succs)):
         lab = sw.edge_label(si)
         if lab and lab != "default":
             ks = [last(x["n"]) for x in walk(lab[1]) if x.get("k") == "enum"]
             if ks:
-                arms[ks[0]] = arm_elems(dom, sw, si)[0]
+                arms[ks[0]] = kind_arm(dom, sw, si, ks[0], tok_d)
 
     def stack_calls(els, names):
-        return [e for e in els if e.kind == "stmt" and e.node.get("k") == "mcall" and last(e.node.get("callee", "")) in names and strip_casts(e.node.get("obj") or {}).get("n") == "stack"]
+        return [e for e in els if e.kind == "stmt" and e.node.get("k") == "mcall" and last(e.node.get("callee", "")) in names and is_var(e.node.get("obj"), sd)]
+
+    def cur_parent(n, depth=0):
+        """`stack.back()`, `*stack.back()` or an unmodified local initialised with it"""
+        n = strip_casts(n)
+        if n is None or depth > 3:
+            return False
+        if n.get("k") == "mcall" and last(n.get("callee", "")) == "back" and is_var(n.get("obj"), sd):
+            return True
+        if n.get("k") == "un" and n.get("op") == "*":
+            return cur_parent(n["v"], depth + 1)
+        if n.get("k") == "var" and n.get("parm") is None and not writes_of(dom, n.get("d")):
+            _, v = decl_of(dom, n.get("d"))
+            return v is not None and v.get("init") is not None and cur_parent(v["init"], depth + 1)
+        return False
+
+    def children_push(n, base_ok):
+        """n is `<base>.children.push_back(…)` / `<base>->children.push_back(…)` with base_ok(<base>)"""
+        o = strip_casts(n.get("obj") or {}) if n.get("k") == "mcall" and last(n.get("callee", "")) in ("push_back", "emplace_back") else None
+        return o is not None and o.get("k") == "member" and last(o.get("n", "")) == "children" and base_ok(o.get("b"))
+
+    def attachments(els):
+        """attachment sites to the current parent: direct, or through a helper that receives the parent and appends to its children exactly once on every path"""
+        n = 0
+        for e in els:
+            if e.kind != "stmt":
+                continue
+            x = e.node
+            if children_push(x, cur_parent):
+                n += 1
+            elif x.get("k") in ("call", "mcall") and (x.get("callee") or "").startswith("iora::parsers::xml::") and any(cur_parent(a) for a in x.get("args", [])):
+                gs = [g for g in fb.funcs(x["callee"], XF) if g.ok and len(g.params) == len(x["args"])]
+                if len(gs) != 1:
+                    raise AnalysisBroken("DomBuilder::build passes the current parent to %s (%d definitions)" % (last(x["callee"]), len(gs)))
+                g = gs[0]
+                for j, a in enumerate(x["args"]):
+                    if cur_parent(a):
+                        att = [y for y in g.stmts() if children_push(y.node, lambda bn: is_var(bn, g.params[j].get("d")))]
+                        if len(att) != 1 or search(g, ("entry",), "exit", stop=lambda y: y is att[0], eh=False) is not None or search(g, att[0], lambda y: y is att[0], eh=False) is not None:
+                            raise AnalysisBroken("%s does not append to its parent's children exactly once on every path (%d sites)" % (last(g.name), len(att)))
+                        n += 1
+        return n
+
+    def decode_sites(g, els, depth=0):
+        n = 0
+        for e in els:
+            c = (e.node.get("callee") or "") if e.kind == "stmt" and e.node.get("k") in ("call", "mcall") else ""
+            if last(c) == "decodeEntities":
+                n += 1
+            elif c.startswith("iora::parsers::xml::") and not c.startswith(XP + "::") and depth < 2:
+                for h in fb.funcs(c, XF):
+                    if h.ok and h is not g:
+                        n += decode_sites(h, list(h.stmts()), depth + 1)
+        return n
     for k, npush, npop in (("StartElement", 1, 0), ("EmptyElement", 0, 0), ("EndElement", 0, 1), ("Text", 0, 0), ("CData", 0, 0), ("Comment", 0, 0), ("ProcessingInstruction", 0, 0)):
         els = arms.get(k, [])
         r.instance()
-        r.expect(len(stack_calls(els, ("push_back",))) == npush and len(stack_calls(els, ("pop_back",))) == npop, dom, None, "DOM nesting: %s" % k,
+        r.expect(len(stack_calls(els, ("push_back", "emplace_back"))) == npush and len(stack_calls(els, ("pop_back",))) == npop, dom, None, "DOM nesting: %s" % k,
                  "the %s case of DomBuilder::build performs %d push / %d pop on the node stack (expected %d / %d): children are attached at the wrong depth"
-                 % (k, len(stack_calls(els, ("push_back",))), len(stack_calls(els, ("pop_back",))), npush, npop), okdesc="%s: %d push, %d pop" % (k, npush, npop))
+                 % (k, len(stack_calls(els, ("push_back", "emplace_back"))), len(stack_calls(els, ("pop_back",))), npush, npop), okdesc="%s: %d push, %d pop" % (k, npush, npop))
     for k in ("StartElement", "EmptyElement", "Text", "CData", "Comment", "ProcessingInstruction"):
         els = arms.get(k, [])
-        att = [e for e in els if e.kind == "stmt" and e.node.get("k") == "mcall" and last(e.node.get("callee", "")) == "push_back" and "children" in show(e.node.get("obj") or {})]
         r.instance()
-        r.expect(len(att) == 1 and "stack.back()" in show(att[0].node.get("obj")) or (len(att) == 1 and "parent" in show(att[0].node.get("obj"))), dom, att[0] if att else None, "DOM attach: %s" % k,
-                 "the %s case does not attach exactly one node to the current parent" % k, okdesc="%s: one child attached to the current parent" % k)
+        na = attachments(els)
+        r.expect(na == 1, dom, None, "DOM attach: %s" % k, "the %s case does not attach exactly one node to the current parent (%d attachment sites)" % (k, na), okdesc="%s: one child attached to the current parent" % k)
     for k in ("StartElement", "EmptyElement", "Text"):
         els = arms.get(k, [])
-        dec = [e for e in els if e.kind == "stmt" and e.node.get("k") in ("call", "mcall") and last(e.node.get("callee", "")) == "decodeEntities"]
         r.instance()
-        r.expect(len(dec) == 1, dom, None, "DOM decoding: %s" % k, "the %s case does not decode entities exactly once" % k, okdesc="%s: entities decoded once" % k)
+        r.expect(decode_sites(dom, els) == 1, dom, None, "DOM decoding: %s" % k, "the %s case does not decode entities exactly once" % k, okdesc="%s: entities decoded once" % k)
+
+
+def token_local(f):
+    """declaration id of the local bound to `parser.current()` (the token the SAX driver / DOM builder is looking at)"""
+    ds = [v["d"] for e in f.stmts() if e.node.get("k") == "decl" for v in e.node["vars"] if v.get("init") is not None and strip_casts(v["init"]).get("k") == "mcall" and strip_casts(v["init"]).get("callee") == XP + "::current"]
+    if len(ds) != 1:
+        raise AnalysisBroken("%s: the current token is not held in exactly one local initialised from Parser::current()" % short(f.name))
+    return ds[0]
+
+
+def kind_arm(f, sw, si, kind, tok_d):
+    """elements on the paths a token of kind `kind` takes from the si-th edge of the switch `sw` to the switch's follow block.  A two-way branch on
+    `tok.kind == TokenKind::X` / `!=` inside the arm (two merged cases told apart again) is followed only along the edge that `kind` takes."""
+    from collections import Counter
+    reach, work = set(), [s for s in sw.succs if s is not None]
+    while work:
+        b = work.pop()
+        if b in reach:
+            continue
+        reach.add(b)
+        work.extend(s for s in f.blocks[b].succs if s is not None)
+    tgt = Counter(s for b in reach for s in f.blocks[b].succs if f.blocks[b].term and f.blocks[b].term.get("k") == "BreakStmt" and s is not None)
+    follow = tgt.most_common(1)[0][0] if tgt else None
+    out, seen, work = [], set(), [sw.succs[si]]
+    while work:
+        b = work.pop()
+        if b in seen or b is None or b == follow or b == sw.id:
+            continue
+        seen.add(b)
+        blk = f.blocks[b]
+        out.extend(blk.elems)
+        succs = list(blk.succs)
+        co = common.cmp_oriented(blk.cond, lambda x: strip_casts(x).get("k") == "enum") if blk.cond is not None and len(succs) == 2 and blk.edge_label(0) is True else None
+        if co and co[0] in ("==", "!="):
+            m = strip_casts(co[1])
+            if m.get("k") == "member" and last(m.get("n", "")) == "kind" and is_var(m.get("b"), tok_d):
+                same = last(strip_casts(co[2])["n"]) == kind
+                succs = [succs[0]] if same == (co[0] == "==") else [succs[1]]
+        work.extend(succs)
+    return out
+
+
+def sax_invocations(fb, f, els, cb_d, tok_d):
+    """[(callback member, the current token is the argument)] for every std::function invocation the elements perform: `cb.onX(t)` directly, or a call of a
+    local lambda / free helper that is handed `cb.onX` and invokes that parameter at exactly one site"""
+    out = []
+    for e in els:
+        if e.kind != "stmt":
+            continue
+        n = e.node
+        if n.get("k") == "opcall" and n.get("op") == "()" and n.get("callee") == "std::function::operator()":
+            tgt = strip_casts(n["args"][0])
+            if tgt.get("k") == "member" and is_var(tgt.get("b"), cb_d):
+                out.append((last(tgt["n"]), len(n["args"]) == 2 and is_var(n["args"][1], tok_d)))
+            else:
+                out.append((show(tgt)[:30], False))
+        elif (n.get("k") == "opcall" and n.get("op") == "()" and "$lambda" in (n.get("callee") or "")) or n.get("k") == "call":
+            args = n["args"][1:] if n.get("k") == "opcall" else n.get("args", [])
+            fields = [(j, strip_casts(a)) for j, a in enumerate(args) if strip_casts(a).get("k") == "member" and is_var(strip_casts(a).get("b"), cb_d)]
+            if not fields:
+                continue
+            gs = [g for g in fb.by_name.get(n.get("callee"), []) if g.ok and g.file == f.file]
+            if len(gs) != 1 or len(gs[0].params) != len(args):
+                raise AnalysisBroken("%s hands a callback to %s, which the rule cannot resolve" % (short(f.name), show(n)[:50]))
+            g = gs[0]
+            caps = {c["n"]: c.get("d") for (ln, lf) in f.lambdas if lf is g for c in ln.get("caps", [])}
+            for j, a in fields:
+                invs = [x for x in g.stmts() if x.node.get("k") == "opcall" and x.node.get("op") == "()" and x.node.get("callee") == "std::function::operator()" and is_var(x.node["args"][0], g.params[j].get("d"))]
+                if len(invs) != 1 or search(g, invs[0], lambda x: x is invs[0], eh=False) is not None:
+                    raise AnalysisBroken("%s: the callback parameter is invoked at %d sites / in a loop" % (short(g.name), len(invs)))
+                ia = [strip_casts(y) for y in invs[0].node["args"][1:]]
+                tok_ok = len(ia) == 1 and ia[0].get("k") == "var" and ((ia[0].get("cap") and caps.get(ia[0]["n"]) == tok_d) or
+                                                                        (ia[0].get("parm") is not None and ia[0]["parm"] < len(args) and is_var(args[ia[0]["parm"]], tok_d)))
+                out.append((last(a["n"]), tok_ok))
+    return out
 
 
 def r7(ctx, r):
     """tokenizer tables: which reader produces which token kind with which delimiters; next()'s dispatch"""
+    funcs = methods(ctx)
+    fam = {}
+    for g in funcs:
+        fam.setdefault(g.name, []).append(g)
+
+    def kinds_of(f):
+        """token kinds f stores into a token's `.kind` — itself or through a family helper that stores its kind parameter (the argument then counts)"""
+        return [last(x["n"]) for (_, v) in assignments_to(f, lambda t: t.endswith(".kind"), fam, skip=token_producers(funcs)) for x in (walk(v) if v is not None else [{"k": "enum", "n": "?"}]) if x.get("k") == "enum"]
     kinds = {"readProcessingInstruction": "ProcessingInstruction", "readComment": "Comment", "readCData": "CData", "readDoctype": "Doctype", "readEndTag": "EndElement", "readText": "Text"}
     for fn_, kind in kinds.items():
         f = xp(ctx, fn_)
-        ks = [last(x["n"]) for e in f.stmts() if assign_parts(e.node) and show(strip_casts(assign_parts(e.node)[0])).endswith(".kind") for x in walk(assign_parts(e.node)[1]) if x.get("k") == "enum"]
+        ks = kinds_of(f)
         r.instance()
         r.expect(ks == [kind], f, None, "token kind of %s" % fn_, "%s reports token kind %s (expected %s)" % (fn_, ks, kind), okdesc="%s → %s" % (fn_, kind))
     st = xp(ctx, "readStartOrEmptyTag")
-    ks = sorted(last(x["n"]) for e in st.stmts() if assign_parts(e.node) and show(strip_casts(assign_parts(e.node)[0])).endswith(".kind") for x in walk(assign_parts(e.node)[1]) if x.get("k") == "enum")
+    ks = sorted(kinds_of(st))
     r.instance()
     r.expect(ks == ["EmptyElement", "StartElement"], st, None, "token kinds of readStartOrEmptyTag", "readStartOrEmptyTag reports kinds %s" % ks, okdesc="readStartOrEmptyTag → StartElement / EmptyElement")
     # delimiters
@@ -1099,23 +1892,56 @@ def r7(ctx, r):
         r.instance()
         r.expect(got == [lit], f, None, "terminator of %s" % fn_, "%s scans for %s (expected %r)" % (fn_, got, lit), okdesc="%s ends at %r" % (fn_, lit))
     pi = xp(ctx, "readProcessingInstruction")
-    got = [x.get("v") for e in pi.stmts() if e.node.get("k") == "mcall" and last(e.node.get("callee", "")) == "find" and is_input(e.node.get("obj")) for x in walk(e.node["args"][0]) if x.get("k") == "str"]
-    adv = [b for b in pi.blocks.values() if b.cond is not None and common.cmp_parts(b.cond) and is_cur(common.cmp_parts(b.cond)[1]) and lin(common.cmp_parts(b.cond)[2]) is not None]
+    finds = [(v["n"], [x.get("v") for x in walk(strip_casts(v["init"])["args"][0]) if x.get("k") == "str"]) for e in pi.stmts() if e.node.get("k") == "decl" for v in e.node["vars"]
+             if v.get("init") is not None and strip_casts(v["init"]).get("k") == "mcall" and last(strip_casts(v["init"]).get("callee", "")) == "find" and is_input(strip_casts(v["init"]).get("obj")) and strip_casts(v["init"]).get("args")]
+    got = [l for _, ls in finds for l in ls]
+    # the cursor is moved up to <position found> + 2: a loop `while (_cur < pos + 2) advance()` or a call of a helper doing that with `pos + 2` as its limit argument
+    limits = limit_params(funcs, set(fam))
+    upto = [lin(q[2]) for b in pi.blocks.values() for q in (common.cmp_both(strip_casts(b.cond)) if b.cond is not None else []) if q[0] in ("<", "<=") and is_cur(q[1]) and lin(q[2]) is not None]
+    for e in pi.stmts():
+        if e.node.get("k") == "mcall" and e.node.get("callee") in fam:
+            for g in fam[e.node["callee"]]:
+                upto += [lin(e.node["args"][k]) for k in limits[g].values() if k < len(e.node["args"])]
     r.instance()
-    r.expect(got == ["?>"] and len(adv) == 1 and lin(common.cmp_parts(adv[0].cond)[2])[0] == 2, pi, None, "terminator of readProcessingInstruction", "the processing instruction does not end at / skip past `?>` (%s)" % got, okdesc="PI ends at '?>' (+2 consumed)")
-    # next(): dispatch on the characters after '<'
+    r.expect(got == ["?>"] and len(finds) == 1 and upto == [form(2, (finds[0][0],))], pi, None, "terminator of readProcessingInstruction", "the processing instruction does not end at / skip past `?>` (%s, cursor moved up to %s)" % (got, [show_form(u) if u else "?" for u in upto]),
+             okdesc="PI ends at '?>' (+2 consumed)")
+    # next(): dispatch on the characters after '<' — an if-chain over a local holding peek() (or peek() itself), or a switch over it
     nx = xp(ctx, "next")
+
+    def peeked(n):
+        n = strip_casts(n)
+        if n is None:
+            return False
+        if n.get("k") == "mcall" and n.get("callee") == XP + "::peek":
+            return True
+        if n.get("k") == "var" and n.get("parm") is None and not writes_of(nx, n.get("d")):
+            _, v = decl_of(nx, n.get("d"))
+            return v is not None and v.get("init") is not None and peeked(v["init"])
+        return False
+
+    def readers_from(bid, limit):
+        return [last(e.node["callee"]) for e in _reach_until_ret(nx, bid)[:limit] if e.kind == "stmt" and e.node.get("k") == "mcall" and last(e.node.get("callee", "")).startswith("read")]
     table = {}
     for b in nx.blocks.values():
-        cp = common.cmp_parts(b.cond) if b.cond is not None else None
-        if cp and cp[0] == "==" and const_value(cp[2]) is not None and strip_casts(cp[1]).get("k") == "var":
-            tb = _reach_until_ret(nx, b.succs[0])[:14]
-            calls = [last(e.node["callee"]) for e in tb if e.kind == "stmt" and e.node.get("k") == "mcall" and last(e.node.get("callee", "")).startswith("read")]
-            table[chr(const_value(cp[2]))] = calls
+        co = common.cmp_oriented(b.cond, lambda x: const_value(x) is not None) if b.cond is not None and len(b.succs) == 2 and b.edge_label(0) is True else None
+        if co and co[0] in ("==", "!=") and peeked(co[1]):
+            table[chr(const_value(co[2]))] = readers_from(b.succs[0 if co[0] == "==" else 1], 14)
+        elif b.term and b.term.get("k") == "SwitchStmt" and b.cond is not None and peeked(b.cond):
+            for si in range(len(b.succs)):
+                lab = b.edge_label(si)
+                if lab and lab != "default" and const_value(lab[1]) is not None and b.succs[si] is not None:
+                    table[chr(const_value(lab[1]))] = readers_from(b.succs[si], 14)
     r.instance()
-    ok = table.get("?", [None])[:1] == ["readProcessingInstruction"] and table.get("/", [None])[:1] == ["readEndTag"] and "<" in table
+    ok = table.get("?", [None])[:1] == ["readProcessingInstruction"] and table.get("/", [None])[:1] == ["readEndTag"] and "<" in table and "!" in table
     r.expect(ok, nx, None, "markup dispatch", "next() dispatches on the character after '<' as %s" % {k: v[:1] for k, v in table.items()}, okdesc="'?' → PI, '/' → end tag, '!' → declarations, else start tag")
-    ms = [(show(strip_casts(b.cond)), [last(e.node["callee"]) for e in _reach_until_ret(nx, b.succs[0])[:6] if e.kind == "stmt" and e.node.get("k") == "mcall" and last(e.node.get("callee", "")).startswith("read")]) for b in nx.blocks.values()
+    # after `<!`: the matchString chain, in next() itself or in a dispatcher called on the '!' arm (a family function that produces no token itself)
+    prod = xp(ctx, "produced")
+    disp = [nx]
+    for nm in table.get("!", []):
+        for g in fam.get(XP + "::" + nm, []):
+            if not any(e.node.get("k") == "mcall" and e.node.get("callee") == prod.name for e in g.stmts()):
+                disp.append(g)
+    ms = [(show(strip_casts(b.cond)), [last(e.node["callee"]) for e in _reach_until_ret(g, b.succs[0])[:6] if e.kind == "stmt" and e.node.get("k") == "mcall" and last(e.node.get("callee", "")).startswith("read")]) for g in disp for b in g.blocks.values()
           if b.cond is not None and strip_casts(b.cond).get("k") == "mcall" and last(strip_casts(b.cond).get("callee", "")) in ("matchString", "matchWordCaseInsensitive")]
     want = {'matchString("--")': "readComment", 'matchString("[CDATA[")': "readCData", 'matchWordCaseInsensitive("DOCTYPE")': "readDoctype"}
     r.instance()
@@ -1134,23 +1960,52 @@ def key_of_(n):
 
 
 
+def branched_bool(f):
+    """variable record of the one bool local of f that a branch tests directly"""
+    bools = {v["d"]: v for e in f.stmts() if e.node.get("k") == "decl" for v in e.node["vars"] if (v.get("t") or "").replace("const", "").strip() == "bool"}
+    used = {strip_casts(b._raw_cond()).get("d") for b in f.blocks.values() if b._raw_cond() is not None and strip_casts(b._raw_cond()).get("k") == "var"} & set(bools)
+    if len(used) != 1:
+        raise AnalysisBroken("%s: %d bool locals are branched on (expected exactly the self-closing flag)" % (last(f.name), len(used)))
+    return bools[used.pop()]
+
+
+def attr_param(f):
+    ps = [p for p in f.params if "vector<" in p["t"] and "Attribute" in p["t"] and "&" in p["t"] and "const" not in p["t"]]
+    if len(ps) != 1:
+        raise AnalysisBroken("%s: no std::vector<Attribute> & parameter" % last(f.name))
+    return ps[0]
+
+
 def anchors(ctx, r):
-    tab = [(xp(ctx, "readStartOrEmptyTag"), ["empty", "name"]), (xp(ctx, "readEndTag"), ["name"]), (xp(ctx, "readAttributes"), ["attrs"]), (xp(ctx, "appendCharRef"), ["code", "c", "v"]),
-           (xp(ctx, "encodeUtf8"), ["out"]), (xp(ctx, "decodeEntities"), ["ent"]), (ctx.fb().func("iora::parsers::xml::DomBuilder::build", file_suffix=XF), ["stack"])]
-    for f, names in tab:
-        common.require_names(f, names)
+    """No rule identifies a construct through the NAME of a local any more (a rename changes nothing).  What the rules do need is that the constructs can
+    be found by dataflow; this rule resolves each of them once, so that a shape the rules cannot anchor is one clear refusal up front."""
+    start, end = xp(ctx, "readStartOrEmptyTag"), xp(ctx, "readEndTag")
+    for f in (start, end):
+        nm = [v["n"] for e in f.stmts() if e.node.get("k") == "decl" for v in e.node["vars"] if v.get("init") is not None and "readName()" in show(v["init"])]
+        if len(nm) != 1:
+            raise AnalysisBroken("%s: the tag name read by readName() is not held in exactly one local (%s)" % (last(f.name), nm))
         r.instance()
-        r.ok("%s: %s" % (last(f.name), ", ".join(names)))
+        r.ok("%s: tag name = the local initialised from readName() (`%s`)" % (last(f.name), nm[0]))
+    r.instance()
+    r.ok("readStartOrEmptyTag: self-closing flag = the bool local that is branched on (`%s`)" % branched_bool(start)["n"])
+    r.instance()
+    r.ok("readAttributes: attribute list = its std::vector<Attribute> & parameter (`%s`)" % attr_param(xp(ctx, "readAttributes"))["n"])
+    for nm in ("runSax", "DomBuilder::build"):
+        f = ctx.fb().func("iora::parsers::xml::" + nm, file_suffix=XF)
+        token_local(f)
+        r.instance()
+        r.ok("%s: current token = the local bound to Parser::current()" % nm)
 
 
 def run(ctx, ck):
-    r0 = ck.run_rule("C14-R0", "the local names the rules are anchored on exist (a rename makes the analysis refuse — exit 2 — instead of raising a false alarm)", "anchor table", lambda r: anchors(ctx, r))
+    r0 = ck.run_rule("C14-R0", "the constructs the rules are anchored on are found by dataflow (no local name is an anchor; a shape that cannot be anchored is a refusal — exit 2 — not a false alarm)", "anchor resolution", lambda r: anchors(ctx, r))
     if r0.broken:
         return
     ck.run_rule("C14-R1", "cursor and every local index stay inside their buffers; slices start at cursor snapshots; offsets are the cursor", "A7 interprocedural cursor-window abstract interpretation + local windows", lambda r: r1(ctx, r))
     ck.run_rule("C14-R2", "element stack pushed/popped only behind the balance tests; Eof only with an empty stack; errors sticky", "A2 dominance / who-may-write", lambda r: r2(ctx, r))
     ck.run_rule("C14-R3", "every configured limit is tested on every path that grows the bounded quantity", "A2 dominance + loop re-entry search", lambda r: r3(ctx, r))
     ck.run_rule("C14-R4", "entity table is exactly the five predefined names + numeric references; no I/O, DOCTYPE only skipped", "A10 table extraction + A3 deny list", lambda r: r4(ctx, r))
-    ck.run_rule("C14-R5", "numeric character references cannot wrap; digit values and UTF-8 encoder exact", "A8 + exact finite-domain evaluation", lambda r: r5(ctx, r))
+    ck.run_rule("C14-R5", "numeric character references: every byte of the body consumed as a digit (loops fail on a non-digit, from_chars needs ec and ptr == end), no wrap; digit values and UTF-8 encoder exact",
+                "A8 + A2 must-pass-through per loop iteration / per accepting return + exact finite-domain evaluation", lambda r: r5(ctx, r))
     ck.run_rule("C14-R7", "tokenizer tables: token kind and delimiters per reader, markup dispatch, matching quotes", "A10 table extraction", lambda r: r7(ctx, r))
     ck.run_rule("C14-R6", "SAX and DOM are driven by the one pull token stream and cover every content token kind", "A3 + exhaustiveness", lambda r: r6(ctx, r))
